@@ -124,6 +124,27 @@ Proof. destruct k, a; cbn; lia. Qed.
 Lemma nth_repeat_tid n i : nth i (repeat TInvalid n) TInvalid = TInvalid.
 Proof. revert i. induction n; intros [|i]; cbn; auto. Qed.
 
+
+(* lia on the arithmetic hypotheses only: zify scans every hypothesis, and the loop lemmas carry
+   very large ones *)
+Ltac keep_arith :=
+  repeat match goal with
+  | H : ?T |- _ =>
+      lazymatch T with
+      | @eq nat _ _ => fail
+      | ~ (@eq nat _ _) => fail
+      | le _ _ => fail
+      | lt _ _ => fail
+      | _ /\ _ => fail
+      | _ => lazymatch type of T with Prop => clear H | _ => fail end
+      end
+  end.
+Ltac clia := keep_arith; lia.
+
+(* a history of calls on one cache *)
+Fixpoint run_calls (A : nfa) (cfg : dconfig) (c : cache) (ks : list call) : cache :=
+  match ks with [] => c | k :: t => run_calls A cfg (fst (run_call A cfg c k)) t end.
+
 (* ------------------------------------------------------------------ transparency *)
 Section Transparency.
   Variable A : nfa.
@@ -760,7 +781,7 @@ Section Transparency.
       drive None (first_step A cfg h) fuel c (sid, pos, None) = (c', o) ->
       cinv c' /\ (o = RFallback \/ o = PF s pos).
     Proof.
-      induction fuel as [|f IH]; intros c sid pos s c' o Hc Hr Hf; [lia|].
+      induction fuel as [|f IH]; intros c sid pos s c' o Hc Hr Hf; [clia|].
       cbn [drive]. unfold first_step at 1.
       destruct (Nat.leb_spec (length h) pos) as [Hle|Hlt].
       { intros H; inversion H; subst; clear H. split; [exact Hc|]. right.
@@ -787,8 +808,8 @@ Section Transparency.
         - intros H; inversion H; subst. split; [exact Hc1|]. now left.
         - destruct Hz as [ids' [m [Hd [Hr' Hm]]]]. rewrite Hd, Hm. destruct m.
           + intros H; inversion H; subst. split; [exact Hc1|]. now right.
-          + intros H. rewrite (pf_fuel (length h) (S (length h))) by lia.
-            eapply (IH c1 t (S pos1) (mkD ids' (is_word_byte (byte_at h pos1)) false false false)); [exact Hc1|exact Hr'|lia|exact H]. }
+          + intros H. rewrite (pf_fuel (length h) (S (length h))) by clia.
+            eapply (IH c1 t (S pos1) (mkD ids' (is_word_byte (byte_at h pos1)) false false false)); [exact Hc1|exact Hr'|clia|exact H]. }
       rewrite Hwb. cbn [negb andb].
       destruct (pos + 3 <? length h) eqn:E3.
       - apply Nat.ltb_lt in E3.
@@ -800,11 +821,11 @@ Section Transparency.
         rewrite Heq.
         destruct u.
         + intros H. specialize (Hcont eq_refl).
-          eapply (IH c sid1 pos1 s1); [exact Hc|exact Hr1|lia|exact H].
+          eapply (IH c sid1 pos1 s1); [exact Hc|exact Hr1|clia|exact H].
         + intros H. eapply (Hslow sid1 pos1 s1); [exact Hr1|exact Hge|exact Hst|]. exact H.
         + destruct Hst as [Hst _]. intros H. eapply (Hslow sid1 pos1 s1); [exact Hr1|exact Hge|exact Hst|].
           exact H.
-      - intros H. eapply (Hslow sid pos s); [exact Hr|lia|exact Hlt|]. exact H.
+      - intros H. eapply (Hslow sid pos s); [exact Hr|clia|exact Hlt|]. exact H.
     Qed.
   End LoopsT.
 
@@ -1024,7 +1045,7 @@ Section Transparency.
 
     Lemma pl_fuel w : forall f1 f2 s pos last, length h - pos < f1 -> length h - pos < f2 ->
       p_loop A cfg h w f1 s pos last = p_loop A cfg h w f2 s pos last.
-    Proof.
+    Proof. clear Hstride.
       induction f1 as [|f1 IH]; intros f2 s pos last H1 H2; [lia|]. destruct f2 as [|f2]; [lia|].
       destruct (Nat.leb_spec (length h) pos) as [Hle|Hlt].
       - now rewrite !p_loop_eoi.
@@ -1036,7 +1057,7 @@ Section Transparency.
 
     Lemma pl_psteps ids pos ids' pos' :
       psteps h ids pos ids' pos' -> forall s s' last, d_ids s = ids -> d_ids s' = ids' -> PL s pos last = PL s' pos' last.
-    Proof.
+    Proof. clear Hstride.
       induction 1 as [ids pos|ids pos ids1 ids' pos' Hl Hd Hs IH]; intros s s' last Hi Hi'.
       - apply p_loop_ids. congruence.
       - unfold PL. rewrite (p_loop_step h true _ s pos last _ (byte_at_nth h pos Hl)). rewrite Hi, Hd.
@@ -1050,7 +1071,7 @@ Section Transparency.
       is_invalid (lookup cfg c sid (byte_at h pos)) = false -> is_dead (lookup cfg c sid (byte_at h pos)) = false ->
       exists ids' m, cdet ids (byte_at h pos) = CNext ids' m /\ rep c (lookup cfg c sid (byte_at h pos)) ids' /\
                      mtag (lookup cfg c sid (byte_at h pos)) = m.
-    Proof.
+    Proof. clear Hstride.
       intros Hc Hr Hi Hd. pose proof (lookup_ok c sid ids (byte_at h pos) Hc Hr) as Hok.
       destruct (lookup cfg c sid (byte_at h pos)) as [| |j m st]; try discriminate.
       destruct Hok as [s' [Hs' [Hm Hx]]]. exists (d_ids (cs_d s')), (d_match (cs_d s')).
@@ -1058,7 +1079,7 @@ Section Transparency.
     Qed.
 
     Lemma rep_ext c c' t ids : ext c c' -> rep c t ids -> rep c' t ids.
-    Proof.
+    Proof. clear Hstride.
       intros He [s [H1 [H2 H3]]]. destruct t as [| |i m st]; cbn in H1; try discriminate.
       destruct (He _ _ H1) as [s' [Ha Hb]]. exists s'. cbn [get_state]. rewrite Hb. auto.
     Qed.
@@ -1068,7 +1089,7 @@ Section Transparency.
       drive None (at_step A cfg h) fuel c (sid, pos, last) = (c', o) ->
       cinv c' /\ accel_ok c' /\ (o = RFallback \/ o = PL s pos last).
     Proof.
-      induction fuel as [|f IH]; intros c sid pos last s c' o Hc Ha Hr Hf; [lia|].
+      induction fuel as [|f IH]; intros c sid pos last s c' o Hc Ha Hr Hf; [clia|].
       cbn [drive]. unfold at_step at 1.
       destruct (Nat.leb_spec (length h) pos) as [Hle|Hlt].
       { intros H; inversion H; subst; clear H. split; [exact Hc|]. split; [exact Ha|]. right.
@@ -1086,7 +1107,8 @@ Section Transparency.
                              let ex := accel_bytes c1 sid1 in
                              let jump := match ex with [] => Some pos1 | _ => accelerate h pos1 ex end in
                              match jump with
-                             | None => (c1, inl (RDfa last))
+                             | None => if cfg_accel_no_eoi cfg then (c1, inl (RDfa last))
+                                       else (c1, inl (RDfa (if eoi_of A c1 sid1 then Some (length h) else last)))
                              | Some pos' =>
                                  let b := byte_at h pos' in
                                  match take A cfg c1 sid1 b with
@@ -1107,8 +1129,8 @@ Section Transparency.
         - apply andb_prop in Efast as [Efast Hd]. apply andb_prop in Efast as [_ Hi].
           apply negb_true_iff in Hd, Hi.
           destruct (fast_entry c sid1 (d_ids s1) pos1 Hc Hr1 Hi Hd) as [ids' [m [Hcd [Hr' Hm]]]].
-          rewrite Hcd, Hm. intros H. rewrite (pl_fuel true (length h) (S (length h))) by lia.
-          eapply (IH c _ (S pos1) _ (mkD ids' (is_word_byte (byte_at h pos1)) m false false)); [exact Hc|exact Ha|exact Hr'|lia|exact H].
+          rewrite Hcd, Hm. intros H. rewrite (pl_fuel true (length h) (S (length h))) by clia.
+          eapply (IH c _ (S pos1) _ (mkD ids' (is_word_byte (byte_at h pos1)) m false false)); [exact Hc|exact Ha|exact Hr'|clia|exact H].
         - destruct Hr1 as [s0 [Hg [Hi0 Hm0]]]. rewrite Hg.
           destruct sid1 as [| |i1 m1 st1]; cbn in Hg; try discriminate. cbn [tidx].
           destruct (try_detect_spec c i1 s0 Ha Hg) as [Ha1 [He1 [s01 [Hs01 [Hx01 [Hd01 Hrow01]]]]]].
@@ -1124,8 +1146,8 @@ Section Transparency.
           + intros H; inversion H; subst. split; [exact Hc2|]. split; [exact Ha2|]. right. now rewrite Hz.
           + intros H; inversion H; subst. split; [exact Hc2|]. split; [exact Ha2|]. now left.
           + destruct Hz as [ids' [m [Hd [Hr' Hm]]]]. rewrite Hd, Hm.
-            intros H. rewrite (pl_fuel true (length h) (S (length h))) by lia.
-            eapply (IH c2 t (S pos1) _ (mkD ids' (is_word_byte (byte_at h pos1)) m false false)); [exact Hc2|exact Ha2|exact Hr'|lia|exact H]. }
+            intros H. rewrite (pl_fuel true (length h) (S (length h))) by clia.
+            eapply (IH c2 t (S pos1) _ (mkD ids' (is_word_byte (byte_at h pos1)) m false false)); [exact Hc2|exact Ha2|exact Hr'|clia|exact H]. }
       rewrite Hwb. cbn [negb andb].
       assert (Hna : is_accelerable c sid = false).
       { unfold is_accelerable. now rewrite (accel_bytes_nil c sid Ha). }
@@ -1139,10 +1161,10 @@ Section Transparency.
         rewrite Heq.
         destruct u.
         + intros H. specialize (Hcont eq_refl).
-          eapply (IH c sid1 pos1 last s1); [exact Hc|exact Ha|exact Hr1|lia|exact H].
+          eapply (IH c sid1 pos1 last s1); [exact Hc|exact Ha|exact Hr1|clia|exact H].
         + intros H. eapply (Hslow sid1 pos1 s1); [exact Hr1|exact Hge|exact Hst|]. exact H.
         + destruct Hst as [Hst _]. intros H. eapply (Hslow sid1 pos1 s1); [exact Hr1|exact Hge|exact Hst|]. exact H.
-      - intros H. eapply (Hslow sid pos s); [exact Hr|lia|exact Hlt|]. exact H.
+      - intros H. eapply (Hslow sid pos s); [exact Hr|clia|exact Hlt|]. exact H.
     Qed.
 
     (* ---------------- searchEarliestMatch *)
@@ -1155,16 +1177,16 @@ Section Transparency.
       | CNext ids m => if m then RDfa true
                        else p_earliest_loop A cfg h f (mkD ids (is_word_byte b) m false false) (S pos)
       end.
-    Proof.
+    Proof. clear Hstride.
       intros Hb. cbn [p_earliest_loop]. rewrite Hb, Hwb. cbn [andb]. rewrite pdet_cdet.
       destruct (cdet (d_ids s) b) as [| |ids m]; try reflexivity.
     Qed.
 
     Lemma pe_eoi f s pos : length h <= pos -> p_earliest_loop A cfg h (S f) s pos = RDfa (eoi_match A s).
-    Proof. intros H. cbn [p_earliest_loop]. apply nth_error_None in H. now rewrite H. Qed.
+    Proof. clear Hstride. intros H. cbn [p_earliest_loop]. apply nth_error_None in H. now rewrite H. Qed.
 
     Lemma pe_ids : forall f s s' pos, d_ids s = d_ids s' -> p_earliest_loop A cfg h f s pos = p_earliest_loop A cfg h f s' pos.
-    Proof.
+    Proof. clear Hstride.
       induction f as [|f IH]; intros s s' pos Hi; [reflexivity|].
       cbn [p_earliest_loop]. destruct (nth_error h pos) as [b|]; [|now rewrite (eoi_match_ids _ _ Hi)].
       rewrite Hwb. cbn [andb]. now rewrite !pdet_cdet, Hi.
@@ -1172,24 +1194,24 @@ Section Transparency.
 
     Lemma pe_fuel : forall f1 f2 s pos, length h - pos < f1 -> length h - pos < f2 ->
       p_earliest_loop A cfg h f1 s pos = p_earliest_loop A cfg h f2 s pos.
-    Proof.
-      induction f1 as [|f1 IH]; intros f2 s pos H1 H2; [lia|]. destruct f2 as [|f2]; [lia|].
+    Proof. clear Hstride.
+      induction f1 as [|f1 IH]; intros f2 s pos H1 H2; [clia|]. destruct f2 as [|f2]; [clia|].
       destruct (Nat.leb_spec (length h) pos) as [Hle|Hlt].
       - now rewrite !pe_eoi.
       - rewrite !(pe_step _ s pos _ (byte_at_nth h pos Hlt)).
         destruct (cdet (d_ids s) (byte_at h pos)) as [| |ids m]; try reflexivity.
-        destruct m; [reflexivity|]. apply IH; lia.
+        destruct m; [reflexivity|]. apply IH; clia.
     Qed.
 
     Definition PE (s : dstate) (pos : nat) := p_earliest_loop A cfg h (S (length h)) s pos.
 
     Lemma pe_psteps ids pos ids' pos' :
       psteps h ids pos ids' pos' -> forall s s', d_ids s = ids -> d_ids s' = ids' -> PE s pos = PE s' pos'.
-    Proof.
+    Proof. clear Hstride.
       induction 1 as [ids pos|ids pos ids1 ids' pos' Hl Hd Hs IH]; intros s s' Hi Hi'.
       - apply pe_ids. congruence.
       - unfold PE. rewrite (pe_step _ s pos _ (byte_at_nth h pos Hl)). rewrite Hi, Hd.
-        rewrite (pe_fuel (length h) (S (length h))) by lia.
+        rewrite (pe_fuel (length h) (S (length h))) by clia.
         apply (IH (mkD ids1 (is_word_byte (byte_at h pos)) false false false) s'); auto.
     Qed.
 
@@ -1198,7 +1220,7 @@ Section Transparency.
       drive false (earliest_step A cfg h) fuel c (sid, pos, last) = (c', o) ->
       cinv c' /\ accel_ok c' /\ (o = RFallback \/ o = PE s pos).
     Proof.
-      induction fuel as [|f IH]; intros c sid pos last s c' o Hc Ha Hr Hf; [lia|].
+      induction fuel as [|f IH]; intros c sid pos last s c' o Hc Ha Hr Hf; [clia|].
       cbn [drive]. unfold earliest_step at 1.
       destruct (Nat.leb_spec (length h) pos) as [Hle|Hlt].
       { intros H; inversion H; subst; clear H. split; [exact Hc|]. split; [exact Ha|]. right.
@@ -1216,7 +1238,8 @@ Section Transparency.
                              let ex := accel_bytes c1 sid1 in
                              let jump := match ex with [] => Some pos1 | _ => accelerate h pos1 ex end in
                              match jump with
-                             | None => (c1, inl (RDfa false))
+                             | None => if cfg_accel_no_eoi cfg then (c1, inl (RDfa false))
+                                       else (c1, inl (RDfa (eoi_of A c1 sid1)))
                              | Some pos' =>
                                  let b := byte_at h pos' in
                                  match take A cfg c1 sid1 b with
@@ -1239,8 +1262,8 @@ Section Transparency.
           destruct (fast_entry c sid1 (d_ids s1) pos1 Hc Hr1 Hi Hd) as [ids' [m [Hcd [Hr' Hm]]]].
           rewrite Hcd, Hm. destruct m.
           + intros H; inversion H; subst. split; [exact Hc|]. split; [exact Ha|]. now right.
-          + intros H. rewrite (pe_fuel (length h) (S (length h))) by lia.
-            eapply (IH c _ (S pos1) _ (mkD ids' (is_word_byte (byte_at h pos1)) false false false)); [exact Hc|exact Ha|exact Hr'|lia|exact H].
+          + intros H. rewrite (pe_fuel (length h) (S (length h))) by clia.
+            eapply (IH c _ (S pos1) _ (mkD ids' (is_word_byte (byte_at h pos1)) false false false)); [exact Hc|exact Ha|exact Hr'|clia|exact H].
         - destruct Hr1 as [s0 [Hg [Hi0 Hm0]]]. rewrite Hg.
           destruct sid1 as [| |i1 m1 st1]; cbn in Hg; try discriminate. cbn [tidx].
           destruct (try_detect_spec c i1 s0 Ha Hg) as [Ha1 [He1 [s01 [Hs01 [Hx01 [Hd01 Hrow01]]]]]].
@@ -1257,8 +1280,8 @@ Section Transparency.
           + intros H; inversion H; subst. split; [exact Hc2|]. split; [exact Ha2|]. now left.
           + destruct Hz as [ids' [m [Hd [Hr' Hm]]]]. rewrite Hd, Hm. destruct m.
             * intros H; inversion H; subst. split; [exact Hc2|]. split; [exact Ha2|]. now right.
-            * intros H. rewrite (pe_fuel (length h) (S (length h))) by lia.
-              eapply (IH c2 t (S pos1) _ (mkD ids' (is_word_byte (byte_at h pos1)) false false false)); [exact Hc2|exact Ha2|exact Hr'|lia|exact H]. }
+            * intros H. rewrite (pe_fuel (length h) (S (length h))) by clia.
+              eapply (IH c2 t (S pos1) _ (mkD ids' (is_word_byte (byte_at h pos1)) false false false)); [exact Hc2|exact Ha2|exact Hr'|clia|exact H]. }
       rewrite Hwb. cbn [negb andb].
       assert (Hna : is_accelerable c sid = false).
       { unfold is_accelerable. now rewrite (accel_bytes_nil c sid Ha). }
@@ -1272,13 +1295,747 @@ Section Transparency.
         rewrite Heq.
         destruct u.
         + intros H. specialize (Hcont eq_refl).
-          eapply (IH c sid1 pos1 last s1); [exact Hc|exact Ha|exact Hr1|lia|exact H].
+          eapply (IH c sid1 pos1 last s1); [exact Hc|exact Ha|exact Hr1|clia|exact H].
         + intros H. eapply (Hslow sid1 pos1 s1); [exact Hr1|exact Hge|exact Hst|]. exact H.
         + destruct Hst as [Hst [ids2 Hm2]]. intros H; inversion H; subst. split; [exact Hc|]. split; [exact Ha|].
           right. unfold PE. rewrite (pe_step _ s1 pos1 _ (byte_at_nth h pos1 Hst)). cbn [s1 d_ids]. now rewrite Hm2.
-      - intros H. eapply (Hslow sid pos s); [exact Hr|lia|exact Hlt|]. exact H.
+      - intros H. eapply (Hslow sid pos s); [exact Hr|clia|exact Hlt|]. exact H.
     Qed.
   End LoopsA.
+
+  (* ---------------- acceleration is transparent (current detection, current loops) *)
+  Hypothesis Hloose : cfg_loose_accel cfg = false.
+  Hypothesis Hnoeoi : cfg_accel_no_eoi cfg = false.
+  Hypothesis Hel : has_endline A = false.
+
+  (* the byte classes are consecutive runs covering 0..255 with class indices below the stride *)
+  Fixpoint runs_ok (lo : N) (runs : list (N * nat)) (str : nat) : bool :=
+    match runs with
+    | [] => false
+    | (hi, c) :: t =>
+        (lo <=? hi)%N && (c <? str) && match t with [] => (hi =? 255)%N | _ => runs_ok (hi + 1)%N t str end
+    end.
+  Hypothesis Hruns : runs_ok 0%N (cfg_classes cfg) (stride cfg) = true.
+
+  Lemma runs_ok_cons lo hi c t str :
+    runs_ok lo ((hi, c) :: t) str = true ->
+    (lo <= hi)%N /\ c < str /\ ((t = [] /\ hi = 255%N) \/ (t <> [] /\ runs_ok (hi + 1)%N t str = true)).
+  Proof.
+    clear Hstride.
+    cbn [runs_ok]. intros H. apply andb_prop in H as [H H3]. apply andb_prop in H as [H1 H2].
+    apply N.leb_le in H1. apply Nat.ltb_lt in H2. split; [exact H1|]. split; [exact H2|].
+    destruct t as [|p t]; [left; split; [reflexivity|now apply N.eqb_eq]|right; split; [discriminate|exact H3]].
+  Qed.
+
+  Lemma class_lt_runs str : forall runs lo b,
+    runs_ok lo runs str = true -> (lo <= b)%N -> (b <= 255)%N -> class_of_runs runs b < str.
+  Proof.
+    clear Hstride.
+    induction runs as [|[hi c] t IH]; intros lo b Hok Hlo Hb; [discriminate|].
+    destruct (runs_ok_cons _ _ _ _ _ Hok) as [H1 [H2 H3]]. cbn [class_of_runs].
+    destruct (N.leb_spec b hi) as [Hle|Hgt]; [exact H2|].
+    destruct H3 as [[-> ->]|[_ H3]]; [lia|]. apply (IH (hi + 1)%N); [exact H3|lia|exact Hb].
+  Qed.
+
+  Lemma class_size_pos str : forall runs lo b,
+    runs_ok lo runs str = true -> (lo <= b)%N -> (b <= 255)%N ->
+    (1 <= class_size_runs runs lo (class_of_runs runs b))%N.
+  Proof.
+    clear Hstride.
+    induction runs as [|[hi c] t IH]; intros lo b Hok Hlo Hb; [discriminate|].
+    destruct (runs_ok_cons _ _ _ _ _ Hok) as [H1 [H2 H3]]. cbn [class_of_runs class_size_runs].
+    destruct (N.leb_spec b hi) as [Hle|Hgt].
+    - rewrite Nat.eqb_refl. lia.
+    - destruct H3 as [[-> ->]|[_ H3]]; [lia|].
+      specialize (IH (hi + 1)%N b H3 ltac:(lia) Hb). lia.
+  Qed.
+
+  Lemma class_single str : forall runs lo b k,
+    runs_ok lo runs str = true -> (lo <= b)%N -> (b <= 255)%N ->
+    class_size_runs runs lo k = 1%N -> class_of_runs runs b = k -> class_rep_runs runs lo k = Some b.
+  Proof.
+    clear Hstride.
+    induction runs as [|[hi c] t IH]; intros lo b k Hok Hlo Hb Hsz Hk; [discriminate|].
+    destruct (runs_ok_cons _ _ _ _ _ Hok) as [H1 [H2 H3]].
+    cbn [class_of_runs class_size_runs class_rep_runs] in *.
+    destruct (N.leb_spec b hi) as [Hle|Hgt].
+    - subst k. rewrite Nat.eqb_refl in *. f_equal. lia.
+    - destruct H3 as [[-> ->]|[_ H3]]; [lia|].
+      pose proof (class_size_pos str t (hi + 1)%N b H3 ltac:(lia) Hb) as Hp. rewrite Hk in Hp.
+      destruct (c =? k) eqn:Ec; [lia|].
+      apply (IH (hi + 1)%N b k H3 ltac:(lia) Hb); [lia|exact Hk].
+  Qed.
+
+  Lemma tid_eqb_true a b : tid_eqb a b = true -> a = b.
+  Proof.
+    clear Hstride.
+    destruct a as [| |i m s], b as [| |j m' s']; cbn; try discriminate; auto.
+    intros H. apply andb_prop in H as [H H3]. apply andb_prop in H as [H1 H2].
+    apply Nat.eqb_eq in H1. apply eqb_prop in H2, H3. now subst.
+  Qed.
+
+  Lemma leave_notin self : forall row off k,
+    k < length row -> ~ In (off + k) (leave_classes self row off) -> tid_eqb (nth k row TInvalid) self = true.
+  Proof.
+    clear Hstride.
+    induction row as [|t r IH]; intros off k Hk Hn; [cbn in Hk; lia|].
+    cbn [leave_classes] in Hn. destruct k as [|k].
+    - cbn [nth]. destruct (tid_eqb t self) eqn:E; [reflexivity|]. exfalso. apply Hn. left. lia.
+    - cbn [nth]. apply (IH (S off) k); [cbn in Hk; lia|]. intros Hi. apply Hn.
+      replace (off + S k) with (S off + k) by lia. destruct (tid_eqb t self); [exact Hi|now right].
+  Qed.
+
+  Lemma reps_of_in r : forall ex k, In k ex -> class_rep cfg k = Some r -> In r (reps_of cfg ex).
+  Proof.
+    clear Hstride.
+    induction ex as [|x ex IH]; intros k Hin Hr; [destruct Hin|]. cbn [reps_of].
+    destruct Hin as [->|Hi].
+    - rewrite Hr. now left.
+    - destruct (class_rep cfg x); [right|]; eapply IH; eauto.
+  Qed.
+
+  Lemma nth_firstn_tid n : forall (l : list tid) k, k < n -> nth k (firstn n l) TInvalid = nth k l TInvalid.
+  Proof.
+    clear Hstride.
+    induction n as [|n IH]; intros l k Hk; [lia|]. destruct l as [|x l]; [now destruct k|].
+    destruct k as [|k]; cbn; [reflexivity|]. apply IH. lia.
+  Qed.
+
+  (* what a successful sound detection guarantees: every other byte loops back to the state *)
+  Lemma detect_sound_spec c i s :
+    cinv c -> slot c i = Some s -> detect_accel_sound cfg c i <> [] ->
+    forall b, (b <= 255)%N -> existsb (N.eqb b) (detect_accel_sound cfg c i) = false ->
+    cdet (d_ids (cs_d s)) b = CNext (d_ids (cs_d s)) (d_match (cs_d s)).
+  Proof.
+    clear Hstride.
+    intros Hc Hs. unfold detect_accel_sound. rewrite Hs.
+    set (row := firstn (stride cfg) (cs_row s)).
+    destruct (Nat.ltb_spec (length row) (stride cfg)) as [Hlt|Hlen]; [intros H; now elim H|]. cbn [orb].
+    destruct (existsb is_invalid row); [intros H; now elim H|].
+    set (ex := leave_classes (sid_of c i) row 0).
+    destruct ((1 <=? length ex) && (length ex <=? 3) && forallb (fun k => (class_size cfg k =? 1)%N) ex) eqn:Econd;
+      [|intros H; now elim H].
+    apply andb_prop in Econd as [_ Hall]. rewrite forallb_forall in Hall.
+    intros _ b Hb Hnot.
+    set (k := class_of cfg b).
+    assert (Hk : k < stride cfg) by (apply (class_lt_runs (stride cfg) _ 0%N b Hruns); lia).
+    assert (Hnin : ~ In k ex).
+    { intros Hi. specialize (Hall k Hi). apply N.eqb_eq in Hall.
+      assert (Hrep : class_rep cfg k = Some b).
+      { apply (class_single (stride cfg) _ 0%N b k Hruns); [lia|exact Hb|exact Hall|reflexivity]. }
+      pose proof (reps_of_in b ex k Hi Hrep) as Hin.
+      assert (existsb (N.eqb b) (reps_of cfg ex) = true).
+      { apply existsb_exists. exists b. split; [exact Hin|apply N.eqb_refl]. }
+      congruence. }
+    assert (Hself : nth k (cs_row s) TInvalid = sid_of c i).
+    { apply tid_eqb_true. rewrite <- (nth_firstn_tid (stride cfg) (cs_row s) k Hk).
+      apply (leave_notin (sid_of c i) row 0 k); [fold row; lia|exact Hnin]. }
+    pose proof (proj2 (proj1 Hc _ _ Hs) k) as Hrow. rewrite Hself, (sid_of_some _ _ _ Hs) in Hrow.
+    destruct Hrow as [s' [Hs' [_ Hd]]]. rewrite Hs in Hs'. inversion Hs'; subst s'. now apply Hd.
+  Qed.
+
+  (* the invariant: acceleration bytes, once set, really are the only exits *)
+  Definition asound (s : cstate) : Prop :=
+    forall l, cs_accel s = Some l -> l <> [] ->
+    forall b, (b <= 255)%N -> existsb (N.eqb b) l = false ->
+    cdet (d_ids (cs_d s)) b = CNext (d_ids (cs_d s)) (d_match (cs_d s)).
+
+  Definition accel_sound (c : cache) : Prop := forall i s, slot c i = Some s -> asound s.
+
+  Lemma accel_sound_new : accel_sound new_cache.
+  Proof. intros i s H. unfold slot, new_cache in H. cbn in H. destruct i; discriminate. Qed.
+
+  Lemma asound_upd c i f :
+    accel_sound c -> (forall s, slot c i = Some s -> asound (f s)) -> accel_sound (upd_slot c i f).
+  Proof.
+    clear Hstride.
+    intros Ha Hf j s Hs. rewrite slot_upd in Hs. destruct (Nat.eqb_spec j i) as [->|Hne]; [|eauto].
+    destruct (slot c i) as [s0|] eqn:E; [|discriminate]. cbn in Hs. inversion Hs; subst. eauto.
+  Qed.
+
+  Lemma asound_set_row c i cls t : accel_sound c -> accel_sound (set_row c i cls t).
+  Proof. intros Ha. unfold set_row. apply asound_upd; [exact Ha|]. intros s Hs. exact (Ha _ _ Hs). Qed.
+
+  Lemma asound_mark_start c j k anch : accel_sound c -> accel_sound (mark_start c j k anch).
+  Proof.
+    clear Hstride.
+    intros Ha i s Hs. unfold mark_start in Hs.
+    change (slot (upd_slot c j (fun s => mkCS (cs_d s) true (cs_accel s) (cs_row s))) i = Some s) in Hs.
+    revert i s Hs. apply asound_upd; [exact Ha|]. intros s0 Hs0. exact (Ha _ _ Hs0).
+  Qed.
+
+  Lemma asound_push c d c' j : accel_sound c -> push cfg c d = (c', j) -> accel_sound c'.
+  Proof.
+    clear Hstride.
+    intros Ha Hp. destruct (slot_push _ _ _ _ _ Hp) as [H1 [H2 _]].
+    intros i s Hs. destruct (Nat.eq_dec i j) as [->|Hne].
+    - rewrite H1 in Hs. inversion Hs; subst. intros l Hl. discriminate.
+    - rewrite H2 in Hs by exact Hne. eauto.
+  Qed.
+
+  Lemma asound_clear c : accel_sound (clear_cache A cfg c).
+  Proof.
+    clear Hstride.
+    intros i s Hs. unfold clear_cache, slot in Hs. cbn in Hs. destruct i as [|[|i]]; cbn in Hs; try discriminate.
+    inversion Hs; subst. intros l Hl. discriminate.
+  Qed.
+
+  Lemma asound_try_detect c i : cinv c -> accel_sound c -> accel_sound (try_detect cfg c i).
+  Proof.
+    clear Hstride.
+    intros Hc Ha. unfold try_detect. destruct (slot c i) as [s|] eqn:Hs; [|exact Ha].
+    destruct (cs_accel s) eqn:Hx; [exact Ha|].
+    apply asound_upd; [exact Ha|]. intros s0 Hs0. rewrite Hs in Hs0. inversion Hs0; subst s0.
+    intros l Hl Hne b Hb Hnot. cbn [cs_accel cs_d] in *. inversion Hl; subst l.
+    unfold detect_accel in *. rewrite Hloose in *. eapply detect_sound_spec; eauto.
+  Qed.
+
+  Lemma dz_asound c cur b c' z : accel_sound c -> dz A cfg c cur b = (c', z) -> accel_sound c'.
+  Proof.
+    clear Hstride.
+    intros Ha. unfold dz. destruct (slot c cur) as [cs|]; [|intros H; inversion H; subst; exact Ha].
+    destruct (pdet A cfg (cs_d cs) b) as [| |ns].
+    - intros H; inversion H; subst. now apply asound_set_row.
+    - intros H; inversion H; subst. exact Ha.
+    - destruct (find_key cfg c (key_of cfg ns)) as [j|].
+      + intros H; inversion H; subst. now apply asound_set_row.
+      + destruct (is_full cfg c).
+        * destruct (cfg_max_clears cfg <=? c_clears c); [intros H; inversion H; subst; exact Ha|].
+          pose proof (asound_clear c) as Ha1. set (c1 := clear_cache A cfg c) in *.
+          assert (Hstep2 : forall c2 j0, accel_sound c2 -> forall c' z,
+                     match find_key cfg c2 (key_of cfg ns) with
+                     | Some j => (set_row c2 j0 (class_of cfg b) (sid_of c2 j), ZNext (sid_of c2 j))
+                     | None => if is_full cfg c2 then (c2, ZErr)
+                               else let '(c3, j) := push cfg c2 ns in
+                                    (set_row c3 j0 (class_of cfg b) (sid_of c3 j), ZNext (sid_of c3 j))
+                     end = (c', z) -> accel_sound c').
+          { intros c2 j0 Ha2 c'' z'. destruct (find_key cfg c2 (key_of cfg ns)) as [j|].
+            - intros H; inversion H; subst. now apply asound_set_row.
+            - destruct (is_full cfg c2); [intros H; inversion H; subst; exact Ha2|].
+              destruct (push cfg c2 ns) as [c3 j] eqn:Ep. intros H; inversion H; subst.
+              apply asound_set_row. eapply asound_push; eauto. }
+          destruct (find_key cfg c1 (key_of cfg (cs_d cs))) as [j0|].
+          { intros H. eapply Hstep2; eauto. }
+          destruct (is_full cfg c1); [intros H; inversion H; subst; exact Ha1|].
+          destruct (push cfg c1 (cs_d cs)) as [c2 j0] eqn:Ep.
+          intros H. eapply (Hstep2 c2 j0); [eapply asound_push; eauto|exact H].
+        * destruct (push cfg c ns) as [c1 j] eqn:Ep. intros H; inversion H; subst.
+          apply asound_set_row. eapply asound_push; eauto.
+  Qed.
+
+  Lemma take_asound c sid b c' z : accel_sound c -> take A cfg c sid b = (c', z) -> accel_sound c'.
+  Proof.
+    clear Hstride.
+    intros Ha. unfold take.
+    destruct (lookup cfg c sid b); try (intros H; inversion H; subst; exact Ha).
+    destruct (get_state c sid); [|intros H; inversion H; subst; exact Ha].
+    intros H. eapply dz_asound; eauto.
+  Qed.
+
+  Lemma insert_start_asound c d k anch c1 t :
+    accel_sound c -> insert_start cfg c d k anch = Some (c1, t) -> accel_sound c1.
+  Proof.
+    clear Hstride.
+    intros Ha. unfold insert_start. destruct (find_key cfg c (key_of cfg d)).
+    - intros H; inversion H; subst. now apply asound_mark_start.
+    - destruct (is_full cfg c); [discriminate|].
+      destruct (push cfg c d) as [c2 j] eqn:Ep. intros H; inversion H; subst.
+      apply asound_mark_start. eapply asound_push; eauto.
+  Qed.
+
+  Lemma get_start_asound c k anch c' o :
+    accel_sound c -> get_start_k A cfg c k anch = (c', o) -> accel_sound c'.
+  Proof.
+    clear Hstride.
+    intros Ha. unfold get_start_k.
+    destruct (nth (stab_idx k anch) (c_stab c) TInvalid).
+    - destruct (insert_start cfg c (pstart A k anch) k anch) as [[c1 t]|] eqn:Ei.
+      + intros H; inversion H; subst. eapply insert_start_asound; eauto.
+      + rewrite Hentry.
+        destruct (cfg_max_clears cfg <=? c_clears c); [intros H; inversion H; subst; exact Ha|].
+        destruct (insert_start cfg (clear_cache A cfg c) (pstart A k anch) k anch) as [[c2 t]|] eqn:Ei2.
+        * intros H; inversion H; subst. eapply insert_start_asound; [apply asound_clear|exact Ei2].
+        * intros H; inversion H; subst. apply asound_clear.
+    - intros H; inversion H; subst; exact Ha.
+    - intros H; inversion H; subst; exact Ha.
+  Qed.
+
+  (* ---------------- closures contain their seeds; determinisation without EndLine looks *)
+  Lemma memb_true_in q l : memb q l = true -> In q l.
+  Proof. unfold memb. intros H. apply existsb_exists in H as [x [Hx He]]. apply Nat.eqb_eq in He. now subst. Qed.
+
+  Lemma closure_loop_mono lh : forall f stack res q, In q res -> In q (closure_loop f A lh stack res).
+  Proof.
+    clear Hstride.
+    induction f as [|f IH]; intros stack res q Hq; [exact Hq|]. cbn [closure_loop].
+    destruct stack as [|x st]; [exact Hq|]. destruct (memb x res); apply IH; [exact Hq|].
+    apply in_or_app. now left.
+  Qed.
+
+  Lemma closure_into_seed lh res q : In q (closure_into A lh res q).
+  Proof.
+    clear Hstride.
+    unfold closure_into, closure_fuel. replace (2 * nstates A + 2) with (S (2 * nstates A + 1)) by lia.
+    cbn [closure_loop]. destruct (memb q res) eqn:E.
+    - apply closure_loop_mono. now apply memb_true_in.
+    - apply closure_loop_mono. apply in_or_app. right. now left.
+  Qed.
+
+  Lemma closure_into_mono lh res seed q : In q res -> In q (closure_into A lh res seed).
+  Proof. intros H. unfold closure_into. now apply closure_loop_mono. Qed.
+
+  Lemma closure_seeds lh : forall seeds acc q, In q seeds \/ In q acc -> In q (fold_left (closure_into A lh) seeds acc).
+  Proof.
+    clear Hstride.
+    induction seeds as [|x seeds IH]; intros acc q [H|H]; cbn [fold_left]; try (now destruct H); try exact H.
+    - destruct H as [->|H]; apply IH; [right; apply closure_into_seed|now left].
+    - apply IH. right. now apply closure_into_mono.
+  Qed.
+
+  Lemma eoi_match_of_match s : contains_match A (d_ids s) = true -> eoi_match A s = true.
+  Proof.
+    clear Hstride.
+    unfold eoi_match, contains_match. rewrite resolve_wb_id. intros H.
+    apply existsb_exists in H as [q [Hq Hm]]. apply existsb_exists. exists q. split; [|exact Hm].
+    unfold closure. apply closure_seeds. now left.
+  Qed.
+
+  (* without EndLine looks the delayed-match flag of every successor is "the source contains Match" *)
+  Lemma cdet_next_flag ids b ids' m : cdet ids b = CNext ids' m -> m = contains_match A ids.
+  Proof.
+    clear Hstride.
+    unfold cdet, pdet. rewrite Hel. cbn [andb d_ids].
+    destruct ((length _ =? 0) && _); [discriminate|]. destruct (cfg_det_limit cfg <? _); [discriminate|].
+    cbn. intros H. now inversion H.
+  Qed.
+
+  Lemma cdet_dead_flag ids b : cdet ids b = CDead -> contains_match A ids = false.
+  Proof.
+    clear Hstride.
+    unfold cdet, pdet. rewrite Hel. cbn [andb d_ids].
+    destruct ((length _ =? 0) && negb (contains_match A ids)) eqn:E.
+    - intros _. apply andb_prop in E as [_ E]. now apply negb_true_iff in E.
+    - destruct (cfg_det_limit cfg <? _); discriminate.
+  Qed.
+
+  Lemma try_detect_ext c i : ext c (try_detect cfg c i).
+  Proof.
+    clear Hstride.
+    unfold try_detect. destruct (slot c i) as [s|]; [|apply ext_refl].
+    destruct (cs_accel s); [apply ext_refl|]. apply ext_upd_meta. reflexivity.
+  Qed.
+
+  (* memchr *)
+  Lemma find_byte_spec ex : forall l p,
+    match find_byte ex l p with
+    | Some q => p <= q < p + length l /\ forall j, j < q - p -> existsb (N.eqb (nth j l 0%N)) ex = false
+    | None => forall j, j < length l -> existsb (N.eqb (nth j l 0%N)) ex = false
+    end.
+  Proof.
+    clear Hstride.
+    induction l as [|b l IH]; intros p; cbn [find_byte length].
+    - intros j Hj. lia.
+    - destruct (existsb (N.eqb b) ex) eqn:E.
+      + split; [lia|]. intros j Hj. lia.
+      + specialize (IH (S p)). destruct (find_byte ex l (S p)) as [q|].
+        * destruct IH as [H1 H2]. split; [lia|]. intros j Hj. destruct j as [|j]; [exact E|].
+          cbn [nth]. apply H2. lia.
+        * intros j Hj. destruct j as [|j]; [exact E|]. cbn [nth]. apply IH. lia.
+  Qed.
+
+  Lemma nth_skipn_N (l : list N) : forall n j, nth j (skipn n l) 0%N = nth (n + j) l 0%N.
+  Proof.
+    clear Hstride.
+    induction l as [|x l IH]; intros n j.
+    - rewrite skipn_nil. destruct j, n; reflexivity.
+    - destruct n as [|n]; [reflexivity|]. cbn [skipn]. rewrite IH. reflexivity.
+  Qed.
+
+  Lemma accelerate_spec h pos ex : pos <= length h ->
+    match accelerate h pos ex with
+    | Some q => pos <= q < length h /\ forall p, pos <= p < q -> existsb (N.eqb (byte_at h p)) ex = false
+    | None => forall p, pos <= p < length h -> existsb (N.eqb (byte_at h p)) ex = false
+    end.
+  Proof.
+    clear Hstride.
+    intros Hp. unfold accelerate. pose proof (find_byte_spec ex (skipn pos h) pos) as H.
+    rewrite skipn_length in H. destruct (find_byte ex (skipn pos h) pos) as [q|].
+    - destruct H as [H1 H2]. split; [lia|]. intros p Hpq. specialize (H2 (p - pos) ltac:(lia)).
+      rewrite nth_skipn_N in H2. replace (pos + (p - pos)) with p in H2 by lia. exact H2.
+    - intros p Hpq. specialize (H (p - pos) ltac:(lia)).
+      rewrite nth_skipn_N in H. replace (pos + (p - pos)) with p in H by lia. exact H.
+  Qed.
+
+  Section LoopsS.
+    Variable h : hay.
+    Hypothesis Hbytes : Forall (fun b => (b <= 255)%N) h.
+
+    Lemma byte_at_le p : p < length h -> (byte_at h p <= 255)%N.
+    Proof.
+      clear Hstride.
+      intros Hp. unfold byte_at. rewrite Forall_forall in Hbytes. apply Hbytes. now apply nth_In.
+    Qed.
+
+    (* skipping n bytes that loop back to the same ids with flag m *)
+    Lemma pl_self m : forall n pos last s,
+      (forall p, pos <= p < pos + n -> cdet (d_ids s) (byte_at h p) = CNext (d_ids s) m) ->
+      pos + n <= length h ->
+      PL h s pos last = PL h s (pos + n) (if m && (0 <? n) then Some (pos + n - 1) else last).
+    Proof.
+      clear Hstride.
+      induction n as [|n IH]; intros pos last s Hs Hlen.
+      - rewrite Nat.add_0_r, andb_false_r. reflexivity.
+      - unfold PL. rewrite (p_loop_step h true _ s pos last _ (byte_at_nth h pos ltac:(lia))).
+        rewrite (Hs pos ltac:(lia)).
+        rewrite (pl_fuel h true (length h) (S (length h))) by lia.
+        set (s1 := mkD (d_ids s) (is_word_byte (byte_at h pos)) m false false).
+        fold (PL h s1 (S pos) (if m then Some pos else last)).
+        rewrite (IH (S pos) (if m then Some pos else last) s1); [|intros p Hp; apply Hs; lia|lia].
+        replace (S pos + n) with (pos + S n) by lia.
+        unfold PL. rewrite (p_loop_ids h true _ s1 s) by reflexivity.
+        f_equal. destruct m; cbn [andb]; [|reflexivity].
+        destruct n as [|n]; cbn; [f_equal; lia|f_equal; lia].
+    Qed.
+
+    Lemma pe_self_false : forall n pos s,
+      (forall p, pos <= p < pos + n -> cdet (d_ids s) (byte_at h p) = CNext (d_ids s) false) ->
+      pos + n <= length h -> PE h s pos = PE h s (pos + n).
+    Proof.
+      clear Hstride.
+      induction n as [|n IH]; intros pos s Hs Hlen.
+      - now rewrite Nat.add_0_r.
+      - unfold PE. rewrite (pe_step h _ s pos _ (byte_at_nth h pos ltac:(lia))).
+        rewrite (Hs pos ltac:(lia)).
+        rewrite (pe_fuel h (length h) (S (length h))) by lia.
+        set (s1 := mkD (d_ids s) (is_word_byte (byte_at h pos)) false false false).
+        fold (PE h s1 (S pos)). rewrite (IH (S pos) s1); [|intros p Hp; apply Hs; lia|lia].
+        replace (S pos + n) with (pos + S n) by lia. unfold PE. now apply pe_ids.
+    Qed.
+
+    (* the accelerated part of one searchAt iteration equals stepping *)
+    Lemma at_jump_spec c sid s0 s pos last ex :
+      cinv c -> accel_sound c -> rep c sid (d_ids s) -> get_state c sid = Some s0 ->
+      cs_accel s0 = Some ex -> ex <> [] -> pos < length h ->
+      match accelerate h pos ex with
+      | None => PL h s pos last = RDfa (if eoi_of A c sid then Some (length h) else last)
+      | Some pos' =>
+          pos <= pos' < length h /\
+          exists last1, PL h s pos last = PL h s pos' last1 /\
+            (last1 = last \/ (contains_match A (d_ids s) = true))
+      end.
+    Proof.
+      clear Hstride.
+      intros Hc Ha Hr Hg Hx Hne Hp.
+      destruct Hr as [s0' [Hg' [Hi Hm]]]. rewrite Hg in Hg'. inversion Hg'; subst s0'.
+      destruct sid as [| |i mt st]; cbn in Hg; try discriminate.
+      pose proof (Ha _ _ Hg ex Hx Hne) as Hs. rewrite Hi in Hs.
+      set (m := d_match (cs_d s0)) in *.
+      pose proof (accelerate_spec h pos ex ltac:(clia)) as Hacc.
+      destruct (accelerate h pos ex) as [pos'|].
+      - destruct Hacc as [Hr1 Hr2]. split; [exact Hr1|].
+        exists (if m && (0 <? pos' - pos) then Some (pos + (pos' - pos) - 1) else last). split.
+        + replace pos' with (pos + (pos' - pos)) at 1 by clia. apply pl_self; [|clia].
+          intros p Hpp. apply Hs; [apply byte_at_le; clia|apply Hr2; clia].
+        + destruct (0 <? pos' - pos) eqn:E0; [|left; now rewrite andb_false_r].
+          destruct m eqn:Em; [|now left]. right.
+          apply Nat.ltb_lt in E0. specialize (Hs (byte_at h pos) (byte_at_le pos Hp) (Hr2 pos ltac:(clia))).
+          symmetry. apply (cdet_next_flag _ _ _ _ Hs).
+      - rewrite (pl_self m (length h - pos) pos last s); [|intros p Hpp; apply Hs; [apply byte_at_le; clia|apply Hacc; clia]|clia].
+        replace (pos + (length h - pos)) with (length h) by clia.
+        unfold PL. rewrite p_loop_eoi by clia.
+        assert (He : eoi_of A c (TId i mt st) = eoi_match A s).
+        { apply eoi_of_rep. exists s0. cbn [get_state mtag]. auto. }
+        rewrite He. destruct m eqn:Em; cbn [andb]; [|reflexivity].
+        assert (Hcm : contains_match A (d_ids s) = true).
+        { specialize (Hs (byte_at h pos) (byte_at_le pos Hp) (Hacc pos ltac:(clia))).
+          symmetry. apply (cdet_next_flag _ _ _ _ Hs). }
+        rewrite (eoi_match_of_match s Hcm). reflexivity.
+    Qed.
+  End LoopsS.
+
+  Section LoopsS2.
+    Variable h : hay.
+    Hypothesis Hbytes : Forall (fun b => (b <= 255)%N) h.
+
+    (* searchAt with ANY cache satisfying cinv and accel_sound: acceleration included *)
+    Lemma at_loop_spec_s : forall fuel c sid pos last s c' o,
+      cinv c -> accel_sound c -> rep c sid (d_ids s) -> length h - pos < fuel ->
+      drive None (at_step A cfg h) fuel c (sid, pos, last) = (c', o) ->
+      cinv c' /\ accel_sound c' /\ (o = RFallback \/ o = PL h s pos last).
+    Proof.
+      clear Hstride.
+      induction fuel as [|f IH]; intros c sid pos last s c' o Hc Ha Hr Hf; [clia|].
+      cbn [drive]. unfold at_step at 1.
+      destruct (Nat.leb_spec (length h) pos) as [Hle|Hlt].
+      { intros H; inversion H; subst; clear H. split; [exact Hc|]. split; [exact Ha|]. right.
+        unfold PL. rewrite p_loop_eoi by exact Hle. now rewrite (eoi_of_rep _ _ _ Hr). }
+      (* one transition at q, the cached side carrying lastc, the pure side lastp *)
+      assert (Htake : forall c1 sidq q lastc lastp sq c' o,
+                 cinv c1 -> accel_sound c1 -> rep c1 sidq (d_ids sq) -> pos <= q -> q < length h ->
+                 (lastc = lastp \/ contains_match A (d_ids sq) = true) ->
+                 match
+                   (match take A cfg c1 sidq (byte_at h q) with
+                    | (c2, ZErr) => (c2, inl RFallback)
+                    | (c2, ZDead) => (c2, inl (RDfa lastc))
+                    | (c2, ZNext t) => (c2, inr (t, S q, if mtag t then Some q else lastc))
+                    end)
+                 with
+                 | (c2, inl o2) => (c2, o2)
+                 | (c2, inr st') => drive None (at_step A cfg h) f c2 st'
+                 end = (c', o) -> cinv c' /\ accel_sound c' /\ (o = RFallback \/ o = PL h sq q lastp)).
+      { intros c1 sidq q lastc lastp sq c'' o' Hc1 Ha1 Hrq Hge Hq Hl.
+        destruct (take A cfg c1 sidq (byte_at h q)) as [c2 z] eqn:Et.
+        destruct (take_spec _ _ _ _ _ _ Hc1 Hrq Et) as [Hc2 Hz].
+        pose proof (take_asound _ _ _ _ _ Ha1 Et) as Ha2.
+        unfold PL. rewrite (p_loop_step h true _ sq q lastp _ (byte_at_nth h q Hq)).
+        destruct z as [| |t]; cbn in Hz.
+        - intros H; inversion H; subst. split; [exact Hc2|]. split; [exact Ha2|]. right. rewrite Hz.
+          destruct Hl as [->|Hl]; [reflexivity|]. rewrite (cdet_dead_flag _ _ Hz) in Hl. discriminate.
+        - intros H; inversion H; subst. split; [exact Hc2|]. split; [exact Ha2|]. now left.
+        - destruct Hz as [ids' [m [Hd [Hr' Hm]]]]. rewrite Hd, Hm.
+          assert (Hlast : (if m then Some q else lastc) = (if m then Some q else lastp)).
+          { destruct m; [reflexivity|]. destruct Hl as [->|Hl]; [reflexivity|].
+            rewrite <- (cdet_next_flag _ _ _ _ Hd) in Hl. discriminate. }
+          rewrite Hlast. intros H. rewrite (pl_fuel h true (length h) (S (length h))) by clia.
+          eapply (IH c2 t (S q) _ (mkD ids' (is_word_byte (byte_at h q)) m false false)); [exact Hc2|exact Ha2|exact Hr'|clia|exact H]. }
+      assert (Hslow : forall sid1 pos1 s1 c' o,
+                 rep c sid1 (d_ids s1) -> pos <= pos1 -> pos1 < length h ->
+                 match
+                   (let nx := lookup cfg c sid1 (byte_at h pos1) in
+                    if stag sid1 && negb (is_invalid nx) && negb (is_dead nx)
+                    then (c, inr (nx, S pos1, if mtag nx then Some pos1 else last))
+                    else match get_state c sid1 with
+                         | None => (c, inl RFallback)
+                         | Some _ =>
+                             let c1 := try_detect cfg c (tidx sid1) in
+                             let ex := accel_bytes c1 sid1 in
+                             let jump := match ex with [] => Some pos1 | _ => accelerate h pos1 ex end in
+                             match jump with
+                             | None => if cfg_accel_no_eoi cfg then (c1, inl (RDfa last))
+                                       else (c1, inl (RDfa (if eoi_of A c1 sid1 then Some (length h) else last)))
+                             | Some pos' =>
+                                 let b := byte_at h pos' in
+                                 match take A cfg c1 sid1 b with
+                                 | (c2, ZErr) => (c2, inl RFallback)
+                                 | (c2, ZDead) => (c2, inl (RDfa last))
+                                 | (c2, ZNext t) => (c2, inr (t, S pos', if mtag t then Some pos' else last))
+                                 end
+                             end
+                         end)
+                 with
+                 | (c2, inl o2) => (c2, o2)
+                 | (c2, inr st') => drive None (at_step A cfg h) f c2 st'
+                 end = (c', o) -> cinv c' /\ accel_sound c' /\ (o = RFallback \/ o = PL h s1 pos1 last)).
+      { intros sid1 pos1 s1 c'' o' Hr1 Hge Hlt1. cbv zeta.
+        destruct (stag sid1 && negb (is_invalid (lookup cfg c sid1 (byte_at h pos1))) &&
+                  negb (is_dead (lookup cfg c sid1 (byte_at h pos1)))) eqn:Efast.
+        - apply andb_prop in Efast as [Efast Hd]. apply andb_prop in Efast as [_ Hi].
+          apply negb_true_iff in Hd, Hi.
+          destruct (fast_entry h c sid1 (d_ids s1) pos1 Hc Hr1 Hi Hd) as [ids' [m [Hcd [Hr' Hm]]]].
+          unfold PL. rewrite (p_loop_step h true _ s1 pos1 last _ (byte_at_nth h pos1 Hlt1)).
+          rewrite Hcd, Hm. intros H. rewrite (pl_fuel h true (length h) (S (length h))) by clia.
+          eapply (IH c _ (S pos1) _ (mkD ids' (is_word_byte (byte_at h pos1)) m false false)); [exact Hc|exact Ha|exact Hr'|clia|exact H].
+        - pose proof Hr1 as Hr1c. destruct Hr1 as [s0 [Hg [Hi0 Hm0]]]. rewrite Hg.
+          destruct sid1 as [| |i1 m1 st1]; cbn in Hg; try discriminate. cbn [tidx].
+          pose proof (cinv_try_detect c i1 Hc) as Hc1.
+          pose proof (asound_try_detect c i1 Hc Ha) as Ha1.
+          pose proof (try_detect_ext c i1) as He1.
+          set (c1 := try_detect cfg c i1) in *.
+          pose proof (rep_ext c c1 _ _ He1 Hr1c) as Hr1'.
+          destruct (He1 _ _ Hg) as [s01 [Hs01 Hd01]].
+          unfold accel_bytes. cbn [get_state]. rewrite Hs01.
+          destruct (cs_accel s01) as [[|e0 ex']|] eqn:Hx.
+          + intros H. apply (Htake c1 (TId i1 m1 st1) pos1 last last s1 c'' o' Hc1 Ha1 Hr1' Hge Hlt1 (or_introl eq_refl) H).
+          + pose proof (at_jump_spec h Hbytes c1 (TId i1 m1 st1) s01 s1 pos1 last (e0 :: ex') Hc1 Ha1 Hr1' Hs01 Hx ltac:(discriminate) Hlt1) as Hj.
+            destruct (accelerate h pos1 (e0 :: ex')) as [pos'|].
+            * destruct Hj as [Hrange [last1 [Hpl Hl1]]]. rewrite Hpl.
+              assert (Hd : last = last1 \/ contains_match A (d_ids s1) = true) by (destruct Hl1 as [->|Hl1]; [now left|now right]).
+              intros H. apply (Htake c1 (TId i1 m1 st1) pos' last last1 s1 c'' o' Hc1 Ha1 Hr1' ltac:(clia) ltac:(clia) Hd H).
+            * rewrite Hnoeoi. intros H; inversion H; subst. split; [exact Hc1|]. split; [exact Ha1|].
+              right. now rewrite Hj.
+          + intros H. apply (Htake c1 (TId i1 m1 st1) pos1 last last s1 c'' o' Hc1 Ha1 Hr1' Hge Hlt1 (or_introl eq_refl) H). }
+      rewrite Hwb. cbn [negb andb].
+      destruct (pos + 3 <? length h) eqn:E3.
+      - apply Nat.ltb_lt in E3.
+        destruct (is_accelerable c sid).
+        { intros H. eapply (Hslow sid pos s); [exact Hr|clia|exact Hlt|]. exact H. }
+        destruct (unroll4 cfg c h sid pos) as [[sid1 pos1] u] eqn:Eu.
+        destruct (unroll4_spec h _ _ _ _ _ _ _ Hc Hr E3 Eu) as [ids1 [Hps [Hr1 [Hle1 [Hcont Hst]]]]].
+        pose proof (psteps_le h _ _ _ _ Hps) as Hge.
+        set (s1 := mkD ids1 false false false false).
+        assert (Heq : PL h s pos last = PL h s1 pos1 last) by (apply (pl_psteps h _ _ _ _ Hps); reflexivity).
+        rewrite Heq.
+        destruct u.
+        + intros H. specialize (Hcont eq_refl).
+          eapply (IH c sid1 pos1 last s1); [exact Hc|exact Ha|exact Hr1|clia|exact H].
+        + intros H. eapply (Hslow sid1 pos1 s1); [exact Hr1|exact Hge|exact Hst|]. exact H.
+        + destruct Hst as [Hst _]. intros H. eapply (Hslow sid1 pos1 s1); [exact Hr1|exact Hge|exact Hst|]. exact H.
+      - intros H. eapply (Hslow sid pos s); [exact Hr|clia|exact Hlt|]. exact H.
+    Qed.
+
+    (* the accelerated part of one searchEarliestMatch iteration *)
+    Lemma e_jump_spec c sid s0 s pos ex :
+      cinv c -> accel_sound c -> rep c sid (d_ids s) -> get_state c sid = Some s0 ->
+      cs_accel s0 = Some ex -> ex <> [] -> pos < length h ->
+      match accelerate h pos ex with
+      | None => PE h s pos = RDfa (eoi_of A c sid)
+      | Some pos' =>
+          pos <= pos' < length h /\
+          (PE h s pos = PE h s pos' \/ (contains_match A (d_ids s) = true /\ PE h s pos = RDfa true))
+      end.
+    Proof.
+      clear Hstride.
+      intros Hc Ha Hr Hg Hx Hne Hp.
+      destruct Hr as [s0' [Hg' [Hi Hm]]]. rewrite Hg in Hg'. inversion Hg'; subst s0'.
+      destruct sid as [| |i mt st]; cbn in Hg; try discriminate.
+      pose proof (Ha _ _ Hg ex Hx Hne) as Hs. rewrite Hi in Hs.
+      assert (He : eoi_of A c (TId i mt st) = eoi_match A s).
+      { apply eoi_of_rep. exists s0. cbn [get_state mtag]. auto. }
+      pose proof (accelerate_spec h pos ex ltac:(clia)) as Hacc.
+      (* a skipped first byte with flag true ends the pure search at once *)
+      assert (Htrue : d_match (cs_d s0) = true ->
+                      existsb (N.eqb (byte_at h pos)) ex = false ->
+                      contains_match A (d_ids s) = true /\ PE h s pos = RDfa true).
+      { intros Em Hn. specialize (Hs (byte_at h pos) (byte_at_le h Hbytes pos Hp) Hn). rewrite Em in Hs.
+        split; [symmetry; apply (cdet_next_flag _ _ _ _ Hs)|].
+        unfold PE. rewrite (pe_step h _ s pos _ (byte_at_nth h pos Hp)). now rewrite Hs. }
+      destruct (accelerate h pos ex) as [pos'|].
+      - destruct Hacc as [Hr1 Hr2]. split; [exact Hr1|].
+        destruct (d_match (cs_d s0)) eqn:Em.
+        + destruct (Nat.eq_dec pos' pos) as [->|Hne']; [now left|]. right. apply Htrue; [reflexivity|]. apply Hr2. clia.
+        + left. replace pos' with (pos + (pos' - pos)) by clia. apply (pe_self_false h); [|clia].
+          intros p Hpp. apply Hs; [apply (byte_at_le h Hbytes); clia|apply Hr2; clia].
+      - rewrite He. destruct (d_match (cs_d s0)) eqn:Em.
+        + destruct (Htrue eq_refl (Hacc pos ltac:(clia))) as [Hcm Hpe]. rewrite Hpe.
+          now rewrite (eoi_match_of_match s Hcm).
+        + rewrite (pe_self_false h (length h - pos) pos s); [|intros p Hpp; apply Hs; [apply (byte_at_le h Hbytes); clia|apply Hacc; clia]|clia].
+          replace (pos + (length h - pos)) with (length h) by clia. unfold PE. now rewrite pe_eoi by clia.
+    Qed.
+
+    Lemma earliest_loop_spec_s : forall fuel c sid pos last s c' o,
+      cinv c -> accel_sound c -> rep c sid (d_ids s) -> length h - pos < fuel ->
+      drive false (earliest_step A cfg h) fuel c (sid, pos, last) = (c', o) ->
+      cinv c' /\ accel_sound c' /\ (o = RFallback \/ o = PE h s pos).
+    Proof.
+      clear Hstride.
+      induction fuel as [|f IH]; intros c sid pos last s c' o Hc Ha Hr Hf; [clia|].
+      cbn [drive]. unfold earliest_step at 1.
+      destruct (Nat.leb_spec (length h) pos) as [Hle|Hlt].
+      { intros H; inversion H; subst; clear H. split; [exact Hc|]. split; [exact Ha|]. right.
+        unfold PE. rewrite pe_eoi by exact Hle. now rewrite (eoi_of_rep _ _ _ Hr). }
+      (* one transition at q; pure side PE sq q, or already known true when the source contains Match *)
+      assert (Htake : forall c1 sidq q sq c' o,
+                 cinv c1 -> accel_sound c1 -> rep c1 sidq (d_ids sq) -> pos <= q -> q < length h ->
+                 match
+                   (match take A cfg c1 sidq (byte_at h q) with
+                    | (c2, ZErr) => (c2, inl RFallback)
+                    | (c2, ZDead) => (c2, inl (RDfa false))
+                    | (c2, ZNext t) => if mtag t then (c2, inl (RDfa true)) else (c2, inr (t, S q, last))
+                    end)
+                 with
+                 | (c2, inl o2) => (c2, o2)
+                 | (c2, inr st') => drive false (earliest_step A cfg h) f c2 st'
+                 end = (c', o) -> cinv c' /\ accel_sound c' /\ (o = RFallback \/ o = PE h sq q)).
+      { intros c1 sidq q sq c'' o' Hc1 Ha1 Hrq Hge Hq.
+        destruct (take A cfg c1 sidq (byte_at h q)) as [c2 z] eqn:Et.
+        destruct (take_spec _ _ _ _ _ _ Hc1 Hrq Et) as [Hc2 Hz].
+        pose proof (take_asound _ _ _ _ _ Ha1 Et) as Ha2.
+        unfold PE. rewrite (pe_step h _ sq q _ (byte_at_nth h q Hq)).
+        destruct z as [| |t]; cbn in Hz.
+        - intros H; inversion H; subst. split; [exact Hc2|]. split; [exact Ha2|]. right. now rewrite Hz.
+        - intros H; inversion H; subst. split; [exact Hc2|]. split; [exact Ha2|]. now left.
+        - destruct Hz as [ids' [m [Hd [Hr' Hm]]]]. rewrite Hd, Hm. destruct m.
+          + intros H; inversion H; subst. split; [exact Hc2|]. split; [exact Ha2|]. now right.
+          + intros H. rewrite (pe_fuel h (length h) (S (length h))) by clia.
+            eapply (IH c2 t (S q) _ (mkD ids' (is_word_byte (byte_at h q)) false false false)); [exact Hc2|exact Ha2|exact Hr'|clia|exact H]. }
+      assert (Hslow : forall sid1 pos1 s1 c' o,
+                 rep c sid1 (d_ids s1) -> pos <= pos1 -> pos1 < length h ->
+                 match
+                   (let nx := lookup cfg c sid1 (byte_at h pos1) in
+                    if stag sid1 && negb (is_invalid nx) && negb (is_dead nx)
+                    then if mtag nx then (c, inl (RDfa true)) else (c, inr (nx, S pos1, last))
+                    else match get_state c sid1 with
+                         | None => (c, inl RFallback)
+                         | Some _ =>
+                             let c1 := try_detect cfg c (tidx sid1) in
+                             let ex := accel_bytes c1 sid1 in
+                             let jump := match ex with [] => Some pos1 | _ => accelerate h pos1 ex end in
+                             match jump with
+                             | None => if cfg_accel_no_eoi cfg then (c1, inl (RDfa false))
+                                       else (c1, inl (RDfa (eoi_of A c1 sid1)))
+                             | Some pos' =>
+                                 let b := byte_at h pos' in
+                                 match take A cfg c1 sid1 b with
+                                 | (c2, ZErr) => (c2, inl RFallback)
+                                 | (c2, ZDead) => (c2, inl (RDfa false))
+                                 | (c2, ZNext t) => if mtag t then (c2, inl (RDfa true)) else (c2, inr (t, S pos', last))
+                                 end
+                             end
+                         end)
+                 with
+                 | (c2, inl o2) => (c2, o2)
+                 | (c2, inr st') => drive false (earliest_step A cfg h) f c2 st'
+                 end = (c', o) -> cinv c' /\ accel_sound c' /\ (o = RFallback \/ o = PE h s1 pos1)).
+      { intros sid1 pos1 s1 c'' o' Hr1 Hge Hlt1. cbv zeta.
+        destruct (stag sid1 && negb (is_invalid (lookup cfg c sid1 (byte_at h pos1))) &&
+                  negb (is_dead (lookup cfg c sid1 (byte_at h pos1)))) eqn:Efast.
+        - apply andb_prop in Efast as [Efast Hd]. apply andb_prop in Efast as [_ Hi].
+          apply negb_true_iff in Hd, Hi.
+          destruct (fast_entry h c sid1 (d_ids s1) pos1 Hc Hr1 Hi Hd) as [ids' [m [Hcd [Hr' Hm]]]].
+          unfold PE. rewrite (pe_step h _ s1 pos1 _ (byte_at_nth h pos1 Hlt1)).
+          rewrite Hcd, Hm. destruct m.
+          + intros H; inversion H; subst. split; [exact Hc|]. split; [exact Ha|]. now right.
+          + intros H. rewrite (pe_fuel h (length h) (S (length h))) by clia.
+            eapply (IH c _ (S pos1) _ (mkD ids' (is_word_byte (byte_at h pos1)) false false false)); [exact Hc|exact Ha|exact Hr'|clia|exact H].
+        - pose proof Hr1 as Hr1c. destruct Hr1 as [s0 [Hg [Hi0 Hm0]]]. rewrite Hg.
+          destruct sid1 as [| |i1 m1 st1]; cbn in Hg; try discriminate. cbn [tidx].
+          pose proof (cinv_try_detect c i1 Hc) as Hc1.
+          pose proof (asound_try_detect c i1 Hc Ha) as Ha1.
+          pose proof (try_detect_ext c i1) as He1.
+          set (c1 := try_detect cfg c i1) in *.
+          pose proof (rep_ext c c1 _ _ He1 Hr1c) as Hr1'.
+          destruct (He1 _ _ Hg) as [s01 [Hs01 Hd01]].
+          unfold accel_bytes. cbn [get_state]. rewrite Hs01.
+          destruct (cs_accel s01) as [[|e0 ex']|] eqn:Hx.
+          + intros H. apply (Htake c1 (TId i1 m1 st1) pos1 s1 c'' o' Hc1 Ha1 Hr1' Hge Hlt1 H).
+          + pose proof (e_jump_spec c1 (TId i1 m1 st1) s01 s1 pos1 (e0 :: ex') Hc1 Ha1 Hr1' Hs01 Hx ltac:(discriminate) Hlt1) as Hj.
+            destruct (accelerate h pos1 (e0 :: ex')) as [pos'|].
+            * destruct Hj as [Hrange [Hpe|[Hcm Hpe]]].
+              -- rewrite Hpe. intros H. apply (Htake c1 (TId i1 m1 st1) pos' s1 c'' o' Hc1 Ha1 Hr1' ltac:(clia) ltac:(clia) H).
+              -- (* the source contains Match: the transition at pos' reports it *)
+                 rewrite Hpe.
+                 destruct (take A cfg c1 (TId i1 m1 st1) (byte_at h pos')) as [c2 z] eqn:Et.
+                 destruct (take_spec _ _ _ _ _ _ Hc1 Hr1' Et) as [Hc2 Hz].
+                 pose proof (take_asound _ _ _ _ _ Ha1 Et) as Ha2.
+                 destruct z as [| |t]; cbn in Hz.
+                 ++ rewrite (cdet_dead_flag _ _ Hz) in Hcm. discriminate.
+                 ++ intros H; inversion H; subst. split; [exact Hc2|]. split; [exact Ha2|]. now left.
+                 ++ destruct Hz as [ids' [m [Hd [Hr' Hm]]]]. rewrite Hm.
+                    rewrite (cdet_next_flag _ _ _ _ Hd), Hcm.
+                    intros H; inversion H; subst. split; [exact Hc2|]. split; [exact Ha2|]. now right.
+            * rewrite Hnoeoi. intros H; inversion H; subst. split; [exact Hc1|]. split; [exact Ha1|].
+              right. now rewrite Hj.
+          + intros H. apply (Htake c1 (TId i1 m1 st1) pos1 s1 c'' o' Hc1 Ha1 Hr1' Hge Hlt1 H). }
+      rewrite Hwb. cbn [negb andb].
+      destruct (pos + 3 <? length h) eqn:E3.
+      - apply Nat.ltb_lt in E3.
+        destruct (is_accelerable c sid).
+        { intros H. eapply (Hslow sid pos s); [exact Hr|clia|exact Hlt|]. exact H. }
+        destruct (unroll4 cfg c h sid pos) as [[sid1 pos1] u] eqn:Eu.
+        destruct (unroll4_spec h _ _ _ _ _ _ _ Hc Hr E3 Eu) as [ids1 [Hps [Hr1 [Hle1 [Hcont Hst]]]]].
+        pose proof (psteps_le h _ _ _ _ Hps) as Hge.
+        set (s1 := mkD ids1 false false false false).
+        assert (Heq : PE h s pos = PE h s1 pos1) by (apply (pe_psteps h _ _ _ _ Hps); reflexivity).
+        rewrite Heq.
+        destruct u.
+        + intros H. specialize (Hcont eq_refl).
+          eapply (IH c sid1 pos1 last s1); [exact Hc|exact Ha|exact Hr1|clia|exact H].
+        + intros H. eapply (Hslow sid1 pos1 s1); [exact Hr1|exact Hge|exact Hst|]. exact H.
+        + destruct Hst as [Hst [ids2 Hm2]]. intros H; inversion H; subst. split; [exact Hc|]. split; [exact Ha|].
+          right. unfold PE. rewrite (pe_step h _ s1 pos1 _ (byte_at_nth h pos1 Hst)). cbn [s1 d_ids]. now rewrite Hm2.
+      - intros H. eapply (Hslow sid pos s); [exact Hr|clia|exact Hlt|]. exact H.
+    Qed.
+  End LoopsS2.
 
   (* ---------------- entry points *)
   (* the default start state contains Match only if the empty haystack matches (a fact about
@@ -1303,7 +2060,7 @@ Section Transparency.
     cinv c -> c_search_anchored A cfg h c at_ = (c', o) ->
     cinv c' /\ (o = RFallback \/ o = p_search_anchored A cfg h at_).
   Proof.
-    clear Hstride.
+    clear Hstride Hloose Hnoeoi Hel Hruns.
     intros Hc. unfold c_search_anchored, p_search_anchored.
     destruct (Nat.ltb_spec (length h) at_) as [Hgt|Hle]; [intros H; inversion H; subst; auto|].
     destruct (at_ =? length h) eqn:Eat.
@@ -1321,7 +2078,7 @@ Section Transparency.
     cinv c -> c_search_first A cfg h c at_ = (c', o) ->
     cinv c' /\ (o = RFallback \/ o = p_search_first A cfg h at_).
   Proof.
-    clear Hstride.
+    clear Hstride Hloose Hnoeoi Hel Hruns.
     intros Hc. unfold c_search_first, p_search_first.
     destruct (Nat.ltb_spec (length h) at_) as [Hgt|Hle]; [intros H; inversion H; subst; auto|].
     destruct (at_ =? length h) eqn:Eat.
@@ -1338,7 +2095,7 @@ Section Transparency.
     split; [exact Ha|]. exact Hb.
   Qed.
 
-  Theorem c_search_at_eq_pure h c at_ c' o :
+  Theorem c_search_at_eq_pure_accel_ok h c at_ c' o :
     cinv c -> accel_ok c -> c_search_at A cfg h c at_ = (c', o) ->
     cinv c' /\ accel_ok c' /\ (o = RFallback \/ o = p_search_at A cfg h at_).
   Proof.
@@ -1359,7 +2116,7 @@ Section Transparency.
     split; [exact Hx|]. split; [exact Hy|]. exact Hz.
   Qed.
 
-  Theorem c_is_match_at_eq_pure h c at_ c' o :
+  Theorem c_is_match_at_eq_pure_accel_ok h c at_ c' o :
     cinv c -> accel_ok c -> c_is_match_at A cfg h c at_ = (c', o) ->
     cinv c' /\ accel_ok c' /\ (o = RFallback \/ o = p_is_match_at A cfg h at_).
   Proof.
@@ -1382,7 +2139,7 @@ Section Transparency.
   Proof. intros i s H. unfold slot, new_cache in H. cbn in H. destruct i; discriminate. Qed.
 
   (* what the caller sees (NFA fallback applied): the pure DFA answer or the fallback answer *)
-  Theorem dfa_search_cached_eq_pure h c at_ :
+  Theorem dfa_search_cached_eq_pure_accel_ok h c at_ :
     cinv c -> accel_ok c ->
     cinv (fst (dfa_search_at A cfg c h at_)) /\ accel_ok (fst (dfa_search_at A cfg c h at_)) /\
     (snd (dfa_search_at A cfg c h at_) = fin_end A h at_ (p_search_at A cfg h at_) \/
@@ -1390,17 +2147,17 @@ Section Transparency.
   Proof.
     intros Hc Ha. unfold dfa_search_at.
     destruct (c_search_at A cfg h c at_) as [c' o] eqn:E.
-    destruct (c_search_at_eq_pure h c at_ c' o Hc Ha E) as [H1 [H2 [->| ->]]]; cbn; auto.
+    destruct (c_search_at_eq_pure_accel_ok h c at_ c' o Hc Ha E) as [H1 [H2 [->| ->]]]; cbn; auto.
   Qed.
 
   (* history independence: two caches satisfying the invariant give the same DFA answer *)
-  Theorem dfa_search_history_independent h at_ c1 c2 c1' c2' r1 r2 :
+  Theorem dfa_search_history_independent_accel_ok h at_ c1 c2 c1' c2' r1 r2 :
     cinv c1 -> accel_ok c1 -> cinv c2 -> accel_ok c2 ->
     c_search_at A cfg h c1 at_ = (c1', RDfa r1) -> c_search_at A cfg h c2 at_ = (c2', RDfa r2) -> r1 = r2.
   Proof.
     intros Hc1 Ha1 Hc2 Ha2 E1 E2.
-    destruct (c_search_at_eq_pure h c1 at_ _ _ Hc1 Ha1 E1) as [_ [_ [H1|H1]]]; [discriminate|].
-    destruct (c_search_at_eq_pure h c2 at_ _ _ Hc2 Ha2 E2) as [_ [_ [H2|H2]]]; [discriminate|].
+    destruct (c_search_at_eq_pure_accel_ok h c1 at_ _ _ Hc1 Ha1 E1) as [_ [_ [H1|H1]]]; [discriminate|].
+    destruct (c_search_at_eq_pure_accel_ok h c2 at_ _ _ Hc2 Ha2 E2) as [_ [_ [H2|H2]]]; [discriminate|].
     congruence.
   Qed.
 
@@ -1414,40 +2171,222 @@ Section Transparency.
     destruct (c_search_anchored_eq_pure h c2 at_ _ _ Hc2 E2) as [_ [H2|H2]]; [discriminate|].
     congruence.
   Qed.
+
+  (* ---------------- the same without the accel_ok guard: acceleration is transparent.
+     cinv and accel_sound hold for NewCache() and are preserved by every forward entry point. *)
+  Definition bytes255 (h : hay) : Prop := Forall (fun b => (b <= 255)%N) h.
+
+  Theorem c_search_at_eq_pure h c at_ c' o :
+    bytes255 h -> cinv c -> accel_sound c -> c_search_at A cfg h c at_ = (c', o) ->
+    cinv c' /\ accel_sound c' /\ (o = RFallback \/ o = p_search_at A cfg h at_).
+  Proof.
+    clear Hstride.
+    intros Hb Hc Ha. unfold c_search_at, p_search_at.
+    destruct (Nat.ltb_spec (length h) at_) as [Hgt|Hle]; [intros H; inversion H; subst; auto|].
+    destruct (at_ =? length h) eqn:Eat.
+    { intros H; inversion H; subst. rewrite (c_matches_empty_at_eq _ _ _ Hc). auto. }
+    apply Nat.eqb_neq in Eat. assert (Hlt : at_ < length h) by lia.
+    destruct (always_anchored A && (0 <? at_)); [intros H; inversion H; subst; auto|].
+    unfold get_start.
+    destruct (get_start_k A cfg c (kind_at h at_) false) as [c1 ot] eqn:Eg.
+    destruct (get_start_spec _ _ _ _ _ Hc Eg) as [Hc1 Hst].
+    pose proof (get_start_asound _ _ _ _ _ Ha Eg) as Ha1.
+    destruct ot as [t|]; [|intros H; inversion H; subst; auto].
+    pose proof (Hst t eq_refl) as Hr.
+    intros H. unfold c_fuel, p_fuel in *.
+    destruct (at_loop_spec_s h Hb (S (length h)) c1 t at_ None (pstart A (kind_at h at_) false) c' o Hc1 Ha1 Hr ltac:(lia) H) as [Hx [Hy Hz]].
+    split; [exact Hx|]. split; [exact Hy|]. exact Hz.
+  Qed.
+
+  Theorem c_is_match_at_eq_pure h c at_ c' o :
+    bytes255 h -> cinv c -> accel_sound c -> c_is_match_at A cfg h c at_ = (c', o) ->
+    cinv c' /\ accel_sound c' /\ (o = RFallback \/ o = p_is_match_at A cfg h at_).
+  Proof.
+    clear Hstride.
+    intros Hb Hc Ha. unfold c_is_match_at, p_is_match_at.
+    destruct (Nat.leb_spec (length h) at_) as [Hge|Hlt].
+    { intros H; inversion H; subst. rewrite (c_matches_empty_at_eq _ _ _ Hc). auto. }
+    destruct (always_anchored A && (0 <? at_)); [intros H; inversion H; subst; auto|].
+    unfold get_start.
+    destruct (get_start_k A cfg c (kind_at h at_) false) as [c1 ot] eqn:Eg.
+    destruct (get_start_spec _ _ _ _ _ Hc Eg) as [Hc1 Hst].
+    pose proof (get_start_asound _ _ _ _ _ Ha Eg) as Ha1.
+    destruct ot as [t|]; [|intros H; inversion H; subst; auto].
+    pose proof (Hst t eq_refl) as Hr.
+    intros H. unfold c_fuel, p_fuel in *.
+    destruct (earliest_loop_spec_s h Hb (S (length h)) c1 t at_ None (pstart A (kind_at h at_) false) c' o Hc1 Ha1 Hr ltac:(lia) H) as [Hx [Hy Hz]].
+    split; [exact Hx|]. split; [exact Hy|]. exact Hz.
+  Qed.
+
+  (* the loops without acceleration keep accel_sound too *)
+  Lemma anch_drive_asound h : forall fuel c st c' o,
+    accel_sound c -> drive None (anch_step A cfg h) fuel c st = (c', o) -> accel_sound c'.
+  Proof.
+    clear Hstride.
+    induction fuel as [|f IH]; intros c [[sid pos] last] c' o Ha; cbn [drive]; [intros H; inversion H; subst; exact Ha|].
+    unfold anch_step at 1. destruct (length h <=? pos); [intros H; inversion H; subst; exact Ha|].
+    destruct (has_wb A && _); [intros H; inversion H; subst; exact Ha|].
+    destruct (take A cfg c sid (byte_at h pos)) as [c1 z] eqn:Et.
+    pose proof (take_asound _ _ _ _ _ Ha Et) as Ha1.
+    destruct z; try (intros H; inversion H; subst; exact Ha1). intros H. eapply IH; eauto.
+  Qed.
+
+  Lemma first_drive_asound h : forall fuel c st c' o,
+    accel_sound c -> drive None (first_step A cfg h) fuel c st = (c', o) -> accel_sound c'.
+  Proof.
+    clear Hstride.
+    induction fuel as [|f IH]; intros c [[sid pos] last] c' o Ha; cbn [drive]; [intros H; inversion H; subst; exact Ha|].
+    unfold first_step at 1. destruct (length h <=? pos); [intros H; inversion H; subst; exact Ha|].
+    destruct (if negb (has_wb A) && (pos + 3 <? length h) then unroll4 cfg c h sid pos else (sid, pos, USlow)) as [[sid1 pos1] u].
+    assert (Hs : forall c' o,
+              match (if has_wb A && match get_state c sid1 with Some s => wb_fast (cs_d s) (byte_at h pos1) | None => false end
+                     then (c, inl (RDfa (Some pos1)))
+                     else match take A cfg c sid1 (byte_at h pos1) with
+                          | (c1, ZErr) => (c1, inl RFallback)
+                          | (c1, ZDead) => (c1, inl (RDfa last))
+                          | (c1, ZNext t) => if mtag t then (c1, inl (RDfa (Some pos1))) else (c1, inr (t, S pos1, last))
+                          end)
+              with (c2, inl o2) => (c2, o2) | (c2, inr st') => drive None (first_step A cfg h) f c2 st' end = (c', o) ->
+              accel_sound c').
+    { intros c'' o'. destruct (has_wb A && _); [intros H; inversion H; subst; exact Ha|].
+      destruct (take A cfg c sid1 (byte_at h pos1)) as [c1 z] eqn:Et.
+      pose proof (take_asound _ _ _ _ _ Ha Et) as Ha1.
+      destruct z; try (intros H; inversion H; subst; exact Ha1).
+      destruct (mtag t); [intros H; inversion H; subst; exact Ha1|]. intros H. eapply IH; eauto. }
+    destruct u; [intros H; eapply IH; eauto|apply Hs|apply Hs].
+  Qed.
+
+  Lemma c_search_anchored_asound h c at_ c' o :
+    accel_sound c -> c_search_anchored A cfg h c at_ = (c', o) -> accel_sound c'.
+  Proof.
+    clear Hstride.
+    intros Ha. unfold c_search_anchored.
+    destruct (length h <? at_); [intros H; inversion H; subst; exact Ha|].
+    destruct (at_ =? length h); [intros H; inversion H; subst; exact Ha|]. unfold get_start.
+    destruct (get_start_k A cfg c (kind_at h at_) true) as [c1 ot] eqn:Eg.
+    pose proof (get_start_asound _ _ _ _ _ Ha Eg) as Ha1.
+    destruct ot as [t|]; [|intros H; inversion H; subst; exact Ha1]. intros H. eapply anch_drive_asound; eauto.
+  Qed.
+
+  Lemma c_search_first_asound h c at_ c' o :
+    accel_sound c -> c_search_first A cfg h c at_ = (c', o) -> accel_sound c'.
+  Proof.
+    clear Hstride.
+    intros Ha. unfold c_search_first.
+    destruct (length h <? at_); [intros H; inversion H; subst; exact Ha|].
+    destruct (at_ =? length h); [intros H; inversion H; subst; exact Ha|].
+    destruct (always_anchored A && (0 <? at_)); [intros H; inversion H; subst; exact Ha|]. unfold get_start.
+    destruct (get_start_k A cfg c (kind_at h at_) false) as [c1 ot] eqn:Eg.
+    pose proof (get_start_asound _ _ _ _ _ Ha Eg) as Ha1.
+    destruct ot as [t|]; [|intros H; inversion H; subst; exact Ha1]. intros H. eapply first_drive_asound; eauto.
+  Qed.
+
+  (* ---------------- any history of forward calls *)
+  Definition fwd_call (k : call) : Prop := (k_op k <= 4)%N /\ bytes255 (k_hay k).
+
+  Lemma run_call_inv c k :
+    fwd_call k -> cinv c -> accel_sound c ->
+    cinv (fst (run_call A cfg c k)) /\ accel_sound (fst (run_call A cfg c k)).
+  Proof.
+    clear Hstride.
+    intros [Hop Hb] Hc Ha.
+    assert (Hat : forall c' r, dfa_search_at A cfg c (k_hay k) (k_at k) = (c', r) -> cinv c' /\ accel_sound c').
+    { unfold dfa_search_at. intros c' r. destruct (c_search_at A cfg (k_hay k) c (k_at k)) as [c1 o] eqn:E.
+      intros H; inversion H; subst. destruct (c_search_at_eq_pure _ _ _ _ _ Hb Hc Ha E) as [H1 [H2 _]]. auto. }
+    assert (Hop' : (k_op k = 0 \/ k_op k = 1 \/ k_op k = 2 \/ k_op k = 3 \/ k_op k = 4)%N) by lia.
+    unfold run_call. destruct Hop' as [E|[E|[E|[E|E]]]]; rewrite E.
+    - destruct (dfa_search_at A cfg c (k_hay k) (k_at k)) as [c' r] eqn:E1. cbn [fst]. eapply Hat; eauto.
+    - destruct (dfa_search_at A cfg c (k_hay k) (k_at k)) as [c' r] eqn:E1. cbn [fst]. eapply Hat; eauto.
+    - unfold dfa_search_first. destruct (c_search_first A cfg (k_hay k) c (k_at k)) as [c' o] eqn:E1. cbn [fst].
+      split; [exact (proj1 (c_search_first_eq_pure _ _ _ _ _ Hc E1))|exact (c_search_first_asound _ _ _ _ _ Ha E1)].
+    - unfold dfa_search_anchored. destruct (c_search_anchored A cfg (k_hay k) c (k_at k)) as [c' o] eqn:E1. cbn [fst].
+      split; [exact (proj1 (c_search_anchored_eq_pure _ _ _ _ _ Hc E1))|exact (c_search_anchored_asound _ _ _ _ _ Ha E1)].
+    - unfold dfa_is_match_at. destruct (c_is_match_at A cfg (k_hay k) c (k_at k)) as [c' o] eqn:E1. cbn [fst].
+      destruct (c_is_match_at_eq_pure _ _ _ _ _ Hb Hc Ha E1) as [H1 [H2 _]]. auto.
+  Qed.
+
+  Lemma run_calls_inv : forall ks c,
+    Forall fwd_call ks -> cinv c -> accel_sound c ->
+    cinv (run_calls A cfg c ks) /\ accel_sound (run_calls A cfg c ks).
+  Proof.
+    clear Hstride.
+    induction ks as [|k ks IH]; intros c Hf Hc Ha; [auto|]. inversion Hf; subst. cbn [run_calls].
+    destruct (run_call_inv c k H1 Hc Ha) as [Hc1 Ha1]. now apply IH.
+  Qed.
+
+  (* C13, unconditional in the history: whatever forward calls the cache has served since
+     NewCache(), the caller gets the pure DFA answer or the NFA fallback answer *)
+  Theorem dfa_search_cached_eq_pure ks h at_ :
+    Forall fwd_call ks -> bytes255 h ->
+    let c := run_calls A cfg new_cache ks in
+    snd (dfa_search_at A cfg c h at_) = fin_end A h at_ (p_search_at A cfg h at_) \/
+    snd (dfa_search_at A cfg c h at_) = ref_end A h at_.
+  Proof.
+    clear Hstride.
+    intros Hf Hb c. destruct (run_calls_inv ks new_cache Hf cinv_new accel_sound_new) as [Hc Ha].
+    fold c in Hc, Ha. unfold dfa_search_at.
+    destruct (c_search_at A cfg h c at_) as [c' o] eqn:E.
+    destruct (c_search_at_eq_pure h c at_ c' o Hb Hc Ha E) as [_ [_ [->| ->]]]; cbn; auto.
+  Qed.
+
+  Theorem dfa_is_match_cached_eq_pure ks h at_ :
+    Forall fwd_call ks -> bytes255 h ->
+    let c := run_calls A cfg new_cache ks in
+    snd (dfa_is_match_at A cfg c h at_) = fin_bool A h at_ (p_is_match_at A cfg h at_) \/
+    snd (dfa_is_match_at A cfg c h at_) = ref_bool A h at_.
+  Proof.
+    clear Hstride.
+    intros Hf Hb c. destruct (run_calls_inv ks new_cache Hf cinv_new accel_sound_new) as [Hc Ha].
+    fold c in Hc, Ha. unfold dfa_is_match_at.
+    destruct (c_is_match_at A cfg h c at_) as [c' o] eqn:E.
+    destruct (c_is_match_at_eq_pure h c at_ c' o Hb Hc Ha E) as [_ [_ [->| ->]]]; cbn; auto.
+  Qed.
+
+  (* two histories, no fallback: the same answer *)
+  Theorem dfa_search_history_independent ks1 ks2 h at_ c1' c2' r1 r2 :
+    Forall fwd_call ks1 -> Forall fwd_call ks2 -> bytes255 h ->
+    c_search_at A cfg h (run_calls A cfg new_cache ks1) at_ = (c1', RDfa r1) ->
+    c_search_at A cfg h (run_calls A cfg new_cache ks2) at_ = (c2', RDfa r2) -> r1 = r2.
+  Proof.
+    clear Hstride.
+    intros Hf1 Hf2 Hb E1 E2.
+    destruct (run_calls_inv ks1 new_cache Hf1 cinv_new accel_sound_new) as [Hc1 Ha1].
+    destruct (run_calls_inv ks2 new_cache Hf2 cinv_new accel_sound_new) as [Hc2 Ha2].
+    destruct (c_search_at_eq_pure h _ at_ _ _ Hb Hc1 Ha1 E1) as [_ [_ [H1|H1]]]; [discriminate|].
+    destruct (c_search_at_eq_pure h _ at_ _ _ Hb Hc2 Ha2 E2) as [_ [_ [H2|H2]]]; [discriminate|].
+    congruence.
+  Qed.
 End Transparency.
 
 (* ------------------------------------------------------------------ capacity / clears *)
 (* the pure searches do not read the capacity nor the clear limit: whatever the cache did, a DFA
    answer (not a fallback) is the same for every capacity and every number of clears *)
-Lemma p_search_anchored_cap_irrel A cap1 mc1 cap2 mc2 dl br st cl k1 k2 k3 h at_ :
-  p_search_anchored A (mkCfg cap1 mc1 dl br st cl k1 k2 k3) h at_ = p_search_anchored A (mkCfg cap2 mc2 dl br st cl k1 k2 k3) h at_.
+Lemma p_search_anchored_cap_irrel A cap1 mc1 cap2 mc2 dl br st cl k1 k2 k3 k4 h at_ :
+  p_search_anchored A (mkCfg cap1 mc1 dl br st cl k1 k2 k3 k4) h at_ = p_search_anchored A (mkCfg cap2 mc2 dl br st cl k1 k2 k3 k4) h at_.
 Proof. reflexivity. Qed.
 
-Lemma p_search_first_cap_irrel A cap1 mc1 cap2 mc2 dl br st cl k1 k2 k3 h at_ :
-  p_search_first A (mkCfg cap1 mc1 dl br st cl k1 k2 k3) h at_ = p_search_first A (mkCfg cap2 mc2 dl br st cl k1 k2 k3) h at_.
+Lemma p_search_first_cap_irrel A cap1 mc1 cap2 mc2 dl br st cl k1 k2 k3 k4 h at_ :
+  p_search_first A (mkCfg cap1 mc1 dl br st cl k1 k2 k3 k4) h at_ = p_search_first A (mkCfg cap2 mc2 dl br st cl k1 k2 k3 k4) h at_.
 Proof. reflexivity. Qed.
 
-Lemma p_search_at_cap_irrel A cap1 mc1 cap2 mc2 dl br st cl k1 k2 k3 h at_ :
-  p_search_at A (mkCfg cap1 mc1 dl br st cl k1 k2 k3) h at_ = p_search_at A (mkCfg cap2 mc2 dl br st cl k1 k2 k3) h at_.
+Lemma p_search_at_cap_irrel A cap1 mc1 cap2 mc2 dl br st cl k1 k2 k3 k4 h at_ :
+  p_search_at A (mkCfg cap1 mc1 dl br st cl k1 k2 k3 k4) h at_ = p_search_at A (mkCfg cap2 mc2 dl br st cl k1 k2 k3 k4) h at_.
 Proof. reflexivity. Qed.
 
-Lemma p_is_match_at_cap_irrel A cap1 mc1 cap2 mc2 dl br st cl k1 k2 k3 h at_ :
-  p_is_match_at A (mkCfg cap1 mc1 dl br st cl k1 k2 k3) h at_ = p_is_match_at A (mkCfg cap2 mc2 dl br st cl k1 k2 k3) h at_.
+Lemma p_is_match_at_cap_irrel A cap1 mc1 cap2 mc2 dl br st cl k1 k2 k3 k4 h at_ :
+  p_is_match_at A (mkCfg cap1 mc1 dl br st cl k1 k2 k3 k4) h at_ = p_is_match_at A (mkCfg cap2 mc2 dl br st cl k1 k2 k3 k4) h at_.
 Proof. reflexivity. Qed.
 
 (* ------------------------------------------------------------------ refutations.
    `*_original_refuted`: the ORIGINAL variant of a function since repaired in /repo (selected by
    the variant flag of dconfig) violates the property; next to each, the same witness on the
    CURRENT variant.  `accel_eoi_refuted` is about the current code. *)
-Fixpoint run_calls (A : nfa) (cfg : dconfig) (c : cache) (ks : list call) : cache :=
-  match ks with [] => c | k :: t => run_calls A cfg (fst (run_call A cfg c k)) t end.
-
 (* a[bc]*d *)
 Definition ex_abcd : nfa :=
   mkNfa [SByteRange 97 97 3; SByteRange 98 99 3; SEpsilon 4; SSplit 1 2; SByteRange 100 100 5; SMatch;
          SByteRange 0 255 7; SSplit 0 6] 0 7 1.
 Definition ex_abcd_cfg (loose : bool) : dconfig :=
-  mkCfg 2097152 5 1000 true 5 [(96%N, 0); (97%N, 1); (99%N, 2); (100%N, 3); (255%N, 4)] false loose false.
+  mkCfg 2097152 5 1000 true 5 [(96%N, 0); (97%N, 1); (99%N, 2); (100%N, 3); (255%N, 4)] false loose false false.
 (* five SearchFirstAt calls fill the row of the state after 'a' without any acceleration check *)
 Definition ex_abcd_hist : list call :=
   map (fun h => mkCall 2 h 0 0 0 0 0) [[97; 97]; [97; 98]; [97; 100]; [97; 0]; [97; 101]]%N.
@@ -1476,32 +2415,43 @@ Proof. vm_compute. repeat split. Qed.
 (* x|$ *)
 Definition ex_x_or_end : nfa :=
   mkNfa [SByteRange 120 120 3; SLook LEndText 3; SSplit 0 1; SEpsilon 4; SMatch; SByteRange 0 255 6; SSplit 2 5] 2 6 1.
-Definition ex_x_or_end_cfg : dconfig :=
-  mkCfg 2097152 5 1000 true 3 [(119%N, 0); (120%N, 1); (255%N, 2)] false false false.
+Definition ex_x_or_end_cfg (noeoi : bool) : dconfig :=
+  mkCfg 2097152 5 1000 true 3 [(119%N, 0); (120%N, 1); (255%N, 2)] false false false noeoi.
 Definition ex_x_or_end_hist : list call :=
   map (fun h => mkCall 2 h 0 0 0 0 0) [[97; 97]; [97; 120]; [97; 121]; [97; 10]; [97; 0]]%N.
 
-(* C13 / C14, CURRENT code: the guard accel_ok is still needed.  The detection is sound for the
-   bytes it skips, but when memchr finds no exit byte searchAt returns lastMatch and
-   searchEarliestMatch returns false WITHOUT the end-of-input check: after five SearchFirstAt
-   calls the state after 'a' is accelerable (exit byte 'x'), and `x|$` no longer matches at the
-   end of "ab" (fresh cache: 2 / true; reproduced on lazy.DFA at ce6ce59). *)
-Theorem accel_eoi_refuted :
+(* C13 / C14, original loops (before edee2be): the detection was sound for the bytes it skips,
+   but when memchr found no exit byte searchAt returned lastMatch and searchEarliestMatch
+   returned false WITHOUT the end-of-input check: after five SearchFirstAt calls the state after
+   'a' is accelerable (exit byte 'x'), and `x|$` no longer matched at the end of "ab" (fresh
+   cache: 2 / true). *)
+Theorem accel_eoi_original_refuted :
   exists A cfg hist h,
     cfg_sorted_key cfg = false /\ cfg_loose_accel cfg = false /\ cfg_old_entry cfg = false /\
+    cfg_accel_no_eoi cfg = true /\
     let aged := run_calls A cfg new_cache hist in
     snd (dfa_search_at A cfg new_cache h 0) = Some 2 /\ ref_end A h 0 = Some 2 /\
     snd (dfa_search_at A cfg aged h 0) = None /\
     snd (dfa_is_match_at A cfg new_cache h 0) = true /\ snd (dfa_is_match_at A cfg aged h 0) = false.
 Proof.
-  exists ex_x_or_end, ex_x_or_end_cfg, ex_x_or_end_hist, [97; 98]%N. vm_compute. repeat split.
+  exists ex_x_or_end, (ex_x_or_end_cfg true), ex_x_or_end_hist, [97; 98]%N. vm_compute. repeat split.
 Qed.
+
+(* the same history on the current loops: the accelerated state is really used (its acceleration
+   bytes are ['x']) and the answers are the fresh ones *)
+Theorem accel_eoi_current_ok :
+  let A := ex_x_or_end in let cfg := ex_x_or_end_cfg false in let h := [97; 98]%N in
+  let aged := run_calls A cfg new_cache ex_x_or_end_hist in
+  snd (dfa_search_at A cfg aged h 0) = Some 2 /\ snd (dfa_is_match_at A cfg aged h 0) = true /\
+  existsb (fun o => match o with Some s => match cs_accel s with Some (_ :: _) => true | _ => false end | None => false end)
+          (c_slots (fst (dfa_search_at A cfg aged h 0))) = true.
+Proof. vm_compute. repeat split. Qed.
 
 (* pattern `ab`, 100 bytes, no clears allowed *)
 Definition ex_ab : nfa :=
   mkNfa [SByteRange 97 97 1; SByteRange 98 98 2; SMatch; SByteRange 0 255 4; SSplit 0 3] 0 4 1.
 Definition ex_ab_cfg (old : bool) : dconfig :=
-  mkCfg 100 0 1000 true 4 [(96%N, 0); (97%N, 1); (98%N, 2); (255%N, 3)] false false old.
+  mkCfg 100 0 1000 true 4 [(96%N, 0); (97%N, 1); (98%N, 2); (255%N, 3)] false false old false.
 
 (* C14, original entry points (before bde2710): the NFA fallback of the ANCHORED entry point was
    the unanchored search: `ab` anchored at 0 in "aab": the second state does not fit, the
@@ -1519,7 +2469,7 @@ Proof. vm_compute. reflexivity. Qed.
 
 (* ^$ *)
 Definition ex_empty_line : nfa := mkNfa [SLook LStartText 1; SLook LEndText 2; SMatch] 0 0 1.
-Definition ex_empty_line_cfg (old : bool) : dconfig := mkCfg 2097152 5 1000 true 1 [(255%N, 0)] false false old.
+Definition ex_empty_line_cfg (old : bool) : dconfig := mkCfg 2097152 5 1000 true 1 [(255%N, 0)] false false old false.
 
 (* C14, original entry points (before bde2710): at = len(h) was answered by matchesEmpty, i.e. on
    the EMPTY haystack, without the look-behind context of position at *)
@@ -1537,7 +2487,7 @@ Proof. vm_compute. reflexivity. Qed.
 (* SearchFirstAt reports the EARLIEST end, not the leftmost-first end (by design): a+ on "aa" *)
 Definition ex_a_plus : nfa :=
   mkNfa [SByteRange 97 97 1; SSplit 0 2; SMatch; SByteRange 0 255 4; SSplit 0 3] 0 4 1.
-Definition ex_a_cfg : dconfig := mkCfg 100 5 1000 true 3 [(96%N, 0); (97%N, 1); (255%N, 2)] false false false.
+Definition ex_a_cfg : dconfig := mkCfg 100 5 1000 true 3 [(96%N, 0); (97%N, 1); (255%N, 2)] false false false false.
 Theorem search_first_is_earliest_refuted :
   exists A cfg h, p_search_first A cfg h 0 = RDfa (Some 1) /\ ref_end A h 0 = Some 2 /\
                   p_search_at A cfg h 0 = RDfa (Some 2).
@@ -1546,7 +2496,7 @@ Proof. exists ex_a_plus, ex_a_cfg, [97; 97]%N. vm_compute. repeat split. Qed.
 (* the pattern `..` (UTF-8 aware dot, twice) as compiled by nfa.NewDefaultCompiler *)
 Local Open Scope N_scope.
 Definition ex_dotdot : nfa := (mkNfa [SEpsilon 53; SSparse [(0, 9, 0%nat); (11, 127, 0%nat)]; SByteRange 128 191 0; SByteRange 194 223 2; SByteRange 160 191 2; SByteRange 224 224 4; SByteRange 128 191 2; SByteRange 225 236 6; SByteRange 128 159 2; SByteRange 237 237 8; SByteRange 238 239 6; SByteRange 144 191 6; SByteRange 240 240 11; SByteRange 128 191 6; SByteRange 241 243 13; SByteRange 128 143 6; SByteRange 244 244 15; SSparse [(128, 191, 0%nat); (192, 193, 0%nat); (245, 255, 0%nat)]; SSplit 16 17; SSplit 14 18; SSplit 12 19; SSplit 10 20; SSplit 9 21; SSplit 7 22; SSplit 5 23; SSplit 3 24; SSplit 1 25; SEpsilon 54; SSparse [(0, 9, 27%nat); (11, 127, 27%nat)]; SByteRange 128 191 27; SByteRange 194 223 29; SByteRange 160 191 29; SByteRange 224 224 31; SByteRange 128 191 29; SByteRange 225 236 33; SByteRange 128 159 29; SByteRange 237 237 35; SByteRange 238 239 33; SByteRange 144 191 33; SByteRange 240 240 38; SByteRange 128 191 33; SByteRange 241 243 40; SByteRange 128 143 33; SByteRange 244 244 42; SSparse [(128, 191, 27%nat); (192, 193, 27%nat); (245, 255, 27%nat)]; SSplit 43 44; SSplit 41 45; SSplit 39 46; SSplit 37 47; SSplit 36 48; SSplit 34 49; SSplit 32 50; SSplit 30 51; SSplit 28 52; SMatch; SByteRange 0 255 56; SSplit 26 55] 26 56 1).
-Definition ex_dotdot_cfg (sorted : bool) : dconfig := mkCfg 2097152 5 1000 true 16 [(9, 0%nat); (10, 1%nat); (127, 2%nat); (143, 3%nat); (159, 4%nat); (191, 5%nat); (193, 6%nat); (223, 7%nat); (224, 8%nat); (236, 9%nat); (237, 10%nat); (239, 11%nat); (240, 12%nat); (243, 13%nat); (244, 14%nat); (255, 15%nat)] sorted false false.
+Definition ex_dotdot_cfg (sorted : bool) : dconfig := mkCfg 2097152 5 1000 true 16 [(9, 0%nat); (10, 1%nat); (127, 2%nat); (143, 3%nat); (159, 4%nat); (191, 5%nat); (193, 6%nat); (223, 7%nat); (224, 8%nat); (236, 9%nat); (237, 10%nat); (239, 11%nat); (240, 12%nat); (243, 13%nat); (244, 14%nat); (255, 15%nat)] sorted false false false.
 Local Close Scope N_scope.
 
 (* C13, original key (before 33a0339), within ONE entry point and the default capacity.  The
